@@ -1,10 +1,11 @@
+import DendroModel.Gen.C03Guards
 import DendroModel.Theory.C03Heap
 import DendroModel.Theory.C03Leaves
 /-! C03 — property theorems about the definitions `drv_c03` runs (`Model/C03.lean`, `Model/C03Heap.lean`; the driver
 executes `step` per operation, `run` for whole histories, and the `Heap.*` primitives).
 
 Obligations (every `theorem` directly in `namespace DendroModel.C03` of this file):
-* `step_wf`, `history_wf` — NO SHARING: every operation of the alphabet (all 30 constructors of `Op`, incl. assigning `Tree.seed_node`) and every finite
+* `step_wf`, `history_wf` — NO SHARING: every operation of the alphabet (all 31 constructors of `Op`, incl. assigning `Tree.seed_node` and `resolve_polytomies` under any scripted rng) and every finite
   history keeps `(ids t).Nodup`, nodes created by the operation included.  This is the part of clause (a) that an
   inductive rose tree does not give for free; "seed parentless / listed once under its parent / edge head and tail"
   are facts about pointers and are proved only where a heap refinement exists (below).  These two theorems say
@@ -29,15 +30,31 @@ Obligations (every `theorem` directly in `namespace DendroModel.C03` of this fil
 * `reseedChain_refines` (+ `reseedAt_refines_partial`) — heap layer: the edge-inversion chain of `reseed_at`, as written
   (walk up the parent pointers, `Edge.invert` from the seed downwards, clear the new seed's parent), represents the
   tree-level re-seeding before clean-up.
+* `removeChild_detached_repr` — after `remove_child` the heap represents the remaining tree AND, separately, the removed
+  subtree as a parentless arborescence.
+* `setParent_repr`, `setParent_refines` — the `parent_node` setter as written refines `setParent` (end to end through `step`).
+* `edgeCollapse_repr`, `edgeCollapse_refines`, `edgeCollapse_error_refines` — `Edge.collapse` as written (removal + the
+  insertion loop with the running position) refines `splice c (collapseKids adjust)`; `step` and the pointer routine
+  complete / raise together.  `collapseBasal_repr` / `collapseBasal_refines` — `collapse_basal_bifurcation` is that one
+  `Edge.collapse` on the child `collapseBasal` dissolves.
+* `edgeInvert_repr` — `Edge.invert` on an edge whose tail is the parentless seed; `edgeInvert_inner_breaks` — on any other
+  edge the routine leaves a structure that represents no tree (why only the chain of `reseed_at` may use it).
+* `removeChildSuppress_refines`, `removeChildSuppress_step_refines` — the `suppress_unifurcations=True` branch of
+  `remove_child`, both cases (`self` has a parent and is left with one child; `self` is the seed and is left with two
+  children, the first internal one dissolved by the reversed insertion loop), end to end from the tree's own heap.
+* `removeChild_error_refines` — where `step` answers `ValueError` the pointer-level `remove_child` (either flag) raises
+  before touching a pointer.  `insertMove_refines` — `insert_child` of a node that already is a child.
+  `reseedAt_collapse_refines` — `reseed_at(…, suppress_unifurcations=False)`: chain, then the guarded basal collapse.
+* `repr_is_arborescence` — what `Repr h none t ∧ WF t` says on the pointers alone: clause (a) literally.
+* `gen_*` — tie (A): the decision kernels regenerated from the current source (`Gen/C03Guards.lean`) are what the model does.
 
 NOT proved here (the definitions exist, are executable and are compared with the code on every run, but carry no
-theorem): heap refinement of the `suppress_unifurcations` branch of `remove_child`, the `parent_node` setter,
-`Edge.collapse`, `Edge.invert` away from the seed (grandparent branch), the pointer-level clean-up after the inversion
-chain, and of `add_child` / `insert_child` of a node that
-already is a child or is a re-attached subtree (`addChild_repr` / `insertChild_repr` / `addChild_refines` cover a NEW
-childless node only); the error clause (no partially
-mutated state exists in the model); clause (c) (masks are outside this model — decided by the oracle).
-Helper lemmas are in `DendroModel.C03.Aux` / `.HeapAux` / `.Leaves`. -/
+theorem): the pointer-level clean-up `suppress_unifurcations` (the post-order loop) and the leaf-target clean-up after the
+inversion chain — hence `reseedAt_refines_partial` stays partial (the basal-bifurcation part of the clean-up is
+`collapseBasal_repr`, the whole of `suppress_unifurcations=False` is `reseedAt_collapse_refines`); the error clause in general (no partially
+mutated state exists in the model; `remove_child` and `Edge.collapse` have their error refinements); clause (c) (masks are outside this model — decided by the oracle); `reroot_at_midpoint`
+(no model).
+Helper lemmas are in `DendroModel.C03.Aux` / `.AuxP` / `.AuxR` / `.AuxH` / `.HeapAux` / `.Leaves`. -/
 namespace DendroModel.C03.Aux
 open DendroModel DendroModel.C03
 
@@ -3120,6 +3137,400 @@ theorem pruneUp_fuel : ∀ (f g c : Nat) (t : T), t.size ≤ f → t.size ≤ g 
 end DendroModel.C03.Aux
 
 
+namespace DendroModel.C03.Aux
+open DendroModel DendroModel.C03 DendroModel.C03.Leaves
+
+/-! ### resolve_polytomies under a scripted rng (`Op.resolveRng`)
+
+`pickAt` / `sampleS` only split a list; `attachStep` is a wrap at the polytomy node or a regraft inside it, for which
+"ids are unique" is needed (`addChild` acts on every node of that name), so the loop and the recursion carry the
+invariant: the current node and the children still to attach share no id, and the ids from `k` on are unused. -/
+
+theorem pickAt_split : ∀ (j : Nat) (pool : List T) (x : T) (rest : List T), pickAt j pool = some (x, rest) →
+    ∃ a b, pool = a ++ x :: b ∧ rest = a ++ b
+  | _, [], x, rest, h => by simp [pickAt] at h
+  | 0, y :: ys, x, rest, h => by
+      simp only [pickAt, Option.some.injEq, Prod.mk.injEq] at h
+      exact ⟨[], ys, by simp [h.1], by simp [h.2]⟩
+  | j + 1, y :: ys, x, rest, h => by
+      simp only [pickAt] at h
+      split at h
+      · rename_i r hr
+        simp only [Option.some.injEq, Prod.mk.injEq] at h
+        obtain ⟨a, b, h1, h2⟩ := pickAt_split j ys r.1 r.2 hr
+        exact ⟨y :: a, b, by rw [h1, ← h.1]; rfl, by rw [← h.2, h2]; rfl⟩
+      · cases h
+
+/-- for every additive measure of child lists (`cntL i`, `lcL p`, `pcL p`): the drawn children together with the
+remaining ones are the children -/
+theorem sampleS_add (μ : List T → Nat) (hμ : ∀ a b, μ (a ++ b) = μ a + μ b) : ∀ (m : Nat) (pool : List T) (sc : List Nat),
+    μ (sampleS m pool sc).1 + μ (sampleS m pool sc).2.1 = μ pool := by
+  have h0 : μ [] = 0 := by have := hμ [] []; simp at this; omega
+  intro m
+  induction m with
+  | zero => intro pool sc; simp [sampleS, h0]
+  | succ m ih =>
+    intro pool sc
+    simp only [sampleS]
+    split
+    · simp [h0]
+    · rename_i x rest hp
+      obtain ⟨a, b, h1, h2⟩ := pickAt_split _ _ _ _ hp
+      have := ih rest sc.tail
+      have e1 := hμ [x] (sampleS m rest sc.tail).1
+      have e2 := hμ a (x :: b); have e3 := hμ [x] b; have e4 := hμ a b
+      simp only [List.singleton_append] at e1 e3
+      subst h1 h2
+      simp only; omega
+
+/-- `sample(pool, m)` takes at most `m` elements out of the pool -/
+theorem sampleS_length : ∀ (m : Nat) (pool : List T) (sc : List Nat),
+    pool.length ≤ (sampleS m pool sc).2.1.length + m
+  | 0, pool, sc => by simp [sampleS]
+  | m + 1, pool, sc => by
+      simp only [sampleS]
+      split
+      · simp only; omega
+      · rename_i x rest hp
+        obtain ⟨a, b, h1, h2⟩ := pickAt_split _ _ _ _ hp
+        have := sampleS_length m rest sc.tail
+        subst h1 h2
+        simp only [List.length_append, List.length_cons] at this ⊢; omega
+
+theorem add_reverse (μ : List T → Nat) (hμ : ∀ a b, μ (a ++ b) = μ a + μ b) : ∀ l : List T, μ l.reverse = μ l
+  | [] => rfl
+  | x :: xs => by
+      have := add_reverse μ hμ xs
+      have e1 := hμ xs.reverse [x]; have e2 := hμ [x] xs
+      simp only [List.singleton_append] at e2
+      rw [List.reverse_cons]; omega
+
+theorem addChild_cs_ne (q : Nat) (w t : T) (h : 1 ≤ cnt q t) : (addChild q w t).cs ≠ [] := by
+  cases t with
+  | node j x l s cs =>
+    simp only [addChild, modify]
+    split
+    · simp [T.withCs, T.cs]
+    · rename_i e
+      have hj : ¬ j = q := by simpa using e
+      have hc : cs ≠ [] := by intro e'; subst e'; simp [hj] at h
+      simpa [T.cs] using modifyL_ne_nil q _ cs hc
+
+/-- the parent of `sib` survives the removal of `sib` -/
+theorem parent_stays {n sub : T} {sib q : Nat} (hw : ∀ j, cnt j n ≤ 1) (hne : n.id ≠ sib)
+    (hq : parentOf sib n = some q) (hf : T.find? sib n = some sub) : 1 ≤ cnt q (splice sib (fun _ => []) n) := by
+  have h1 := splice_exact sib (fun _ => []) n sub hne hf (hw sib) q
+  have h2 := parent_not_in_sub sib n q sub hne (hw sib) (hw q) hq hf
+  have h3 := parentOf_pos sib n q hq
+  simp at h1; omega
+
+theorem attachStep_cnt (n nc : T) (sib k : Nat) (hw : ∀ j, cnt j n ≤ 1) (i : Nat) :
+    cnt i (attachStep n sib k nc) ≤ cnt i n + cnt i nc + (if k = i then 1 else 0) := by
+  have hroot : cnt i (n.withCs [.node k none (some Frac.zero) none n.cs, nc]) ≤
+      cnt i n + cnt i nc + (if k = i then 1 else 0) := by
+    rw [cnt_withCs, cnt_eq i n]; simp; omega
+  unfold attachStep
+  split
+  · exact hroot
+  · rename_i hsib
+    have hne : n.id ≠ sib := by intro e; apply hsib; simp [e]
+    split
+    · rename_i q sub hq hf
+      have h1 := addChild_cnt q (.node k none (some Frac.zero) none [sub, nc]) (splice sib (fun _ => []) n) i
+      have hrm := splice_remove sib n sub hne hf i
+      have hle := splice_le sib (fun _ => []) (by intro y k; simp) n q
+      have hq1 : cnt q (splice sib (fun _ => []) n) ≤ 1 := Nat.le_trans hle (hw q)
+      have hcw : cnt i (T.node k none (some Frac.zero) none [sub, nc]) = cnt i sub + cnt i nc + (if k = i then 1 else 0) := by
+        simp
+      have h4 := Nat.mul_le_mul_right (cnt i (T.node k none (some Frac.zero) none [sub, nc])) hq1
+      rw [hcw] at h1 h4; omega
+    · exact hroot
+
+theorem attachStep_cs_ne (n nc : T) (sib k : Nat) (hw : ∀ j, cnt j n ≤ 1) : (attachStep n sib k nc).cs ≠ [] := by
+  unfold attachStep
+  split
+  · simp
+  · rename_i hsib
+    have hne : n.id ≠ sib := by intro e; apply hsib; simp [e]
+    split
+    · rename_i q sub hq hf
+      exact addChild_cs_ne q _ _ (parent_stays hw hne hq hf)
+    · simp
+
+/-- invariant of the attachment loop, one round on -/
+theorem attachStep_inv (n nc : T) (todo : List T) (sib k : Nat)
+    (hw : ∀ i, cnt i n + cntL i (nc :: todo) ≤ 1) (hf : ∀ i, k ≤ i → cnt i n + cntL i (nc :: todo) = 0) :
+    (∀ i, cnt i (attachStep n sib k nc) + cntL i todo ≤ 1) ∧
+    (∀ i, k + 1 ≤ i → cnt i (attachStep n sib k nc) + cntL i todo = 0) := by
+  have hs := attachStep_cnt n nc sib k (fun j => by have := hw j; omega)
+  constructor
+  · intro i
+    have h1 := hs i; have h2 := hw i; have h3 := hf i
+    rw [cntL_cons] at h2 h3
+    by_cases hk : k = i
+    · subst hk; have := h3 (by omega); simp at h1; omega
+    · simp [hk] at h1; omega
+  · intro i hi
+    have h1 := hs i; have h3 := hf i (by omega)
+    rw [cntL_cons] at h3
+    have hk : ¬ k = i := by omega
+    simp [hk] at h1; omega
+
+theorem attachLoop_cnt : ∀ (todo : List T) (n : T) (pts : List Nat) (k : Nat) (sc : List Nat),
+    (∀ i, cnt i n + cntL i todo ≤ 1) → (∀ i, k ≤ i → cnt i n + cntL i todo = 0) →
+    k ≤ (attachLoop n todo pts k sc).2.1 ∧
+    ∀ i, cnt i (attachLoop n todo pts k sc).1 ≤ cnt i n + cntL i todo + ind k (attachLoop n todo pts k sc).2.1 i
+  | [], n, pts, k, sc, _, _ => by simp [attachLoop, ind_self]
+  | nc :: todo, n, pts, k, sc, hw, hf => by
+      simp only [attachLoop]
+      generalize pts.getD (sc.headD 0 % pts.length) n.id = sib
+      have hinv := attachStep_inv n nc todo sib k hw hf
+      have ih := attachLoop_cnt todo (attachStep n sib k nc) (pts ++ [k, nc.id]) (k + 1) sc.tail hinv.1 hinv.2
+      refine ⟨by omega, ?_⟩
+      intro i
+      have h1 := ih.2 i
+      have h2 := attachStep_cnt n nc sib k (fun j => by have := hw j; omega) i
+      have h3 := ind_add k (k + 1) _ i (by omega) ih.1
+      rw [ind_succ] at h3
+      rw [cntL_cons]; omega
+
+theorem attachStep_lc (p : Nat × Nat) (n nc : T) (sib k : Nat) (hw : ∀ j, cnt j n + cnt j nc ≤ 1) (hcs : n.cs ≠ []) :
+    lc p n + lc p nc ≤ lc p (attachStep n sib k nc) := by
+  have hroot : lc p n + lc p nc ≤ lc p (n.withCs [.node k none (some Frac.zero) none n.cs, nc]) := by
+    rw [lc_withCs_cons, lc_eq_cs p n hcs, lc_eq_cs p (.node k none (some Frac.zero) none n.cs) (by simpa [T.cs] using hcs)]
+    simp [T.cs]
+  have hwn : ∀ j, cnt j n ≤ 1 := fun j => by have := hw j; omega
+  unfold attachStep
+  split
+  · exact hroot
+  · rename_i hsib
+    have hne : n.id ≠ sib := by intro e; apply hsib; simp [e]
+    split
+    · rename_i q sub hq hf
+      by_cases hpq : p.1 = q
+      · -- the parent of `sib` is an internal node of `n` and does not occur in `nc`: it is not a leaf of either
+        have hqi := parentOf_internal sib n q (hwn q) hq
+        have hz : lc p n = 0 := by
+          apply Nat.eq_zero_of_not_pos; intro hpos
+          exact leaf_not_internal p n (by omega) (hpq ▸ hqi)
+        have hz2 : lc p nc = 0 := by
+          have h1 := AuxP.lc_le_pc p nc; have h2 := AuxP.pc_le_cnt p nc
+          have h3 := parentOf_pos sib n q hq; have h4 := hw q
+          rw [hpq] at h2; omega
+        omega
+      · have h1 := splice_exact_lc p sib (fun _ => []) n sub hne hf (hwn sib)
+        have h3 := addChild_lc_add p q (.node k none (some Frac.zero) none [sub, nc]) (splice sib (fun _ => []) n) hpq
+          (parent_stays hwn hne hq hf)
+        simp at h1 h3; omega
+    · exact hroot
+
+theorem attachLoop_lc (p : Nat × Nat) : ∀ (todo : List T) (n : T) (pts : List Nat) (k : Nat) (sc : List Nat),
+    (∀ i, cnt i n + cntL i todo ≤ 1) → (∀ i, k ≤ i → cnt i n + cntL i todo = 0) → n.cs ≠ [] →
+    lc p n + lcL p todo ≤ lc p (attachLoop n todo pts k sc).1
+  | [], n, pts, k, sc, _, _, _ => by simp [attachLoop]
+  | nc :: todo, n, pts, k, sc, hw, hf, hcs => by
+      simp only [attachLoop]
+      generalize pts.getD (sc.headD 0 % pts.length) n.id = sib
+      have hinv := attachStep_inv n nc todo sib k hw hf
+      have hwn : ∀ j, cnt j n ≤ 1 := fun j => by have := hw j; omega
+      have ih := attachLoop_lc p todo (attachStep n sib k nc) (pts ++ [k, nc.id]) (k + 1) sc.tail hinv.1 hinv.2
+        (attachStep_cs_ne n nc sib k hwn)
+      have h2 := attachStep_lc p n nc sib k (fun j => by have := hw j; rw [cntL_cons] at this; omega) hcs
+      rw [lcL_cons]; omega
+
+end DendroModel.C03.Aux
+
+namespace DendroModel.C03.Aux
+open DendroModel DendroModel.C03 DendroModel.C03.Leaves
+
+theorem ind_ge (k k' i : Nat) (h : k' ≤ i) : ind k k' i = 0 := by
+  unfold ind; split
+  · omega
+  · rfl
+
+theorem rprL_length (limit : Nat) : ∀ (cs : List T) (k : Nat) (sc : List Nat), (rprL limit cs k sc).1.length = cs.length
+  | [], k, sc => by simp [rprL]
+  | c :: cs, k, sc => by simp [rprL, rprL_length limit cs]
+
+/-- what the attachment loop of a polytomy node starts from: the node with the children that were not drawn, and the
+drawn children — together the node with its (already resolved) children -/
+theorem rpr_pre (j : Nat) (x : Option Nat) (l : Option Frac) (s : Option String) (cs cs' : List T) (k k1 m : Nat)
+    (sc1 : List Nat) (hw : ∀ i, cnt i (.node j x l s cs) ≤ 1) (hf : ∀ i, k ≤ i → cnt i (.node j x l s cs) = 0)
+    (hb : ∀ i, cntL i cs' ≤ cntL i cs + ind k k1 i) :
+    (∀ i, cnt i (.node j x l s (sampleS m cs' sc1).2.1) + cntL i (sampleS m cs' sc1).1.reverse ≤
+      cnt i (.node j x l s cs) + ind k k1 i) ∧
+    (∀ i, cnt i (.node j x l s (sampleS m cs' sc1).2.1) + cntL i (sampleS m cs' sc1).1.reverse ≤ 1) ∧
+    (∀ i, k1 ≤ i → k ≤ k1 → cnt i (.node j x l s (sampleS m cs' sc1).2.1) + cntL i (sampleS m cs' sc1).1.reverse = 0) := by
+  have h1 : ∀ i, cnt i (.node j x l s (sampleS m cs' sc1).2.1) + cntL i (sampleS m cs' sc1).1.reverse ≤
+      cnt i (.node j x l s cs) + ind k k1 i := by
+    intro i
+    have hs := sampleS_add (cntL i) (cntL_append i) m cs' sc1
+    have := hb i
+    rw [cntL_reverse]; simp only [cnt_node]; omega
+  refine ⟨h1, ?_, ?_⟩
+  · intro i
+    have a := h1 i; have b := hw i; have c := ind_le_one k k1 i; have d := ind_pos k k1 i
+    by_cases h0 : ind k k1 i = 0
+    · omega
+    · have := hf i (d (by omega)); omega
+  · intro i hi hk
+    have a := h1 i; have b := hf i (by omega); have c := ind_ge k k1 i hi
+    omega
+
+mutual
+theorem rpr_cnt (limit : Nat) : ∀ (t : T) (k : Nat) (sc : List Nat), (∀ i, cnt i t ≤ 1) → (∀ i, k ≤ i → cnt i t = 0) →
+    k ≤ (rpr limit t k sc).2.1 ∧ ∀ i, cnt i (rpr limit t k sc).1 ≤ cnt i t + ind k (rpr limit t k sc).2.1 i
+  | .node j x l s cs, k, sc, hw, hf => by
+      have hwL : ∀ i, cntL i cs ≤ 1 := fun i => by have := hw i; rw [cnt_node] at this; omega
+      have hfL : ∀ i, k ≤ i → cntL i cs = 0 := fun i hi => by have := hf i hi; rw [cnt_node] at this; omega
+      have h1 := rprL_cnt limit cs k sc hwL hfL
+      simp only [rpr]
+      generalize rprL limit cs k sc = R at h1 ⊢
+      split
+      · have hp := rpr_pre j x l s cs R.1 k R.2.1 (R.1.length - limit) R.2.2 hw hf h1.2
+        generalize sampleS (R.1.length - limit) R.1 R.2.2 = S at hp ⊢
+        have h2 := attachLoop_cnt S.1.reverse (.node j x l s S.2.1) (S.2.1.map T.id ++ [j]) R.2.1 S.2.2 hp.2.1
+          (fun i hi => hp.2.2 i hi h1.1)
+        refine ⟨by omega, ?_⟩
+        intro i
+        have a := hp.1 i; have b := h2.2 i; have c := ind_add k _ _ i h1.1 h2.1
+        omega
+      · refine ⟨h1.1, ?_⟩
+        intro i; have := h1.2 i; simp only [cnt_node]; omega
+theorem rprL_cnt (limit : Nat) : ∀ (cs : List T) (k : Nat) (sc : List Nat), (∀ i, cntL i cs ≤ 1) →
+    (∀ i, k ≤ i → cntL i cs = 0) →
+    k ≤ (rprL limit cs k sc).2.1 ∧ ∀ i, cntL i (rprL limit cs k sc).1 ≤ cntL i cs + ind k (rprL limit cs k sc).2.1 i
+  | [], k, sc, _, _ => by simp [rprL, ind_self]
+  | c :: cs, k, sc, hw, hf => by
+      have h1 := rpr_cnt limit c k sc (fun i => by have := hw i; rw [cntL_cons] at this; omega)
+        (fun i hi => by have := hf i hi; rw [cntL_cons] at this; omega)
+      have h2 := rprL_cnt limit cs (rpr limit c k sc).2.1 (rpr limit c k sc).2.2
+        (fun i => by have := hw i; rw [cntL_cons] at this; omega)
+        (fun i hi => by have := hf i (by omega); rw [cntL_cons] at this; omega)
+      simp only [rprL]
+      refine ⟨by omega, ?_⟩
+      intro i
+      have a := h1.2 i; have b := h2.2 i
+      have c := ind_add k _ _ i h1.1 h2.1
+      simp only [cntL_cons]; omega
+end
+
+mutual
+theorem rpr_lc (p : Nat × Nat) (limit : Nat) (hl : 1 ≤ limit) : ∀ (t : T) (k : Nat) (sc : List Nat), (∀ i, cnt i t ≤ 1) →
+    (∀ i, k ≤ i → cnt i t = 0) → lc p t ≤ lc p (rpr limit t k sc).1
+  | .node j x l s cs, k, sc, hw, hf => by
+      have hwL : ∀ i, cntL i cs ≤ 1 := fun i => by have := hw i; rw [cnt_node] at this; omega
+      have hfL : ∀ i, k ≤ i → cntL i cs = 0 := fun i hi => by have := hf i hi; rw [cnt_node] at this; omega
+      have h1 := rprL_cnt limit cs k sc hwL hfL
+      have h0 := rprL_lc p limit hl cs k sc hwL hfL
+      have hlen := rprL_length limit cs k sc
+      simp only [rpr]
+      generalize rprL limit cs k sc = R at h1 h0 hlen ⊢
+      split
+      · rename_i hgt
+        have hp := rpr_pre j x l s cs R.1 k R.2.1 (R.1.length - limit) R.2.2 hw hf h1.2
+        have hadd := sampleS_add (lcL p) (lcL_append p) (R.1.length - limit) R.1 R.2.2
+        have hsl := sampleS_length (R.1.length - limit) R.1 R.2.2
+        generalize sampleS (R.1.length - limit) R.1 R.2.2 = S at hp hadd hsl ⊢
+        have hne : S.2.1 ≠ [] := by intro e; rw [e] at hsl; simp at hsl; omega
+        have hcs : cs ≠ [] := by intro e; subst e; rw [List.length_nil] at hlen; omega
+        have h2 := attachLoop_lc p S.1.reverse (.node j x l s S.2.1) (S.2.1.map T.id ++ [j]) R.2.1 S.2.2 hp.2.1
+          (fun i hi => hp.2.2 i hi h1.1) (by simpa [T.cs] using hne)
+        rw [lcL_reverse, lc_eq_cs p (.node j x l s S.2.1) (by simpa [T.cs] using hne)] at h2
+        rw [lc_eq_cs p (.node j x l s cs) (by simpa [T.cs] using hcs)]
+        simp only [T.cs] at h2 ⊢; omega
+      · by_cases hcs : cs = []
+        · subst hcs
+          have : R.1 = [] := List.eq_nil_of_length_eq_zero (by simpa using hlen)
+          rw [this]; exact Nat.le_refl _
+        · exact lc_ge' p j x l s cs R.1 h0 hcs
+theorem rprL_lc (p : Nat × Nat) (limit : Nat) (hl : 1 ≤ limit) : ∀ (cs : List T) (k : Nat) (sc : List Nat),
+    (∀ i, cntL i cs ≤ 1) → (∀ i, k ≤ i → cntL i cs = 0) → lcL p cs ≤ lcL p (rprL limit cs k sc).1
+  | [], k, sc, _, _ => by simp [rprL]
+  | c :: cs, k, sc, hw, hf => by
+      have hwc : ∀ i, cnt i c ≤ 1 := fun i => by have := hw i; rw [cntL_cons] at this; omega
+      have hfc : ∀ i, k ≤ i → cnt i c = 0 := fun i hi => by have := hf i hi; rw [cntL_cons] at this; omega
+      have hk := (rpr_cnt limit c k sc hwc hfc).1
+      have h1 := rpr_lc p limit hl c k sc hwc hfc
+      have h2 := rprL_lc p limit hl cs (rpr limit c k sc).2.1 (rpr limit c k sc).2.2
+        (fun i => by have := hw i; rw [cntL_cons] at this; omega)
+        (fun i hi => by have := hf i (by omega); rw [cntL_cons] at this; omega)
+      simp only [rprL, lcL_cons]; omega
+end
+
+end DendroModel.C03.Aux
+
+namespace DendroModel.C03.AuxP
+open DendroModel DendroModel.C03 DendroModel.C03.Aux
+
+theorem attachStep_pc (i : Nat × Nat) (n nc : T) (sib k : Nat) (hw : ∀ j, cnt j n ≤ 1) :
+    pc i (attachStep n sib k nc) ≤ pc i n + pc i nc := by
+  have hroot : pc i (n.withCs [.node k none (some Frac.zero) none n.cs, nc]) ≤ pc i n + pc i nc := by
+    rw [pc_withCs, pc_eq i n]; simp; omega
+  unfold attachStep
+  split
+  · exact hroot
+  · rename_i hsib
+    have hne : n.id ≠ sib := by intro e; apply hsib; simp [e]
+    split
+    · rename_i q sub hq hf
+      have h1 := addChild_cnt q (.node k none (some Frac.zero) none [sub, nc]) (splice sib (fun _ => []) n) i
+      have hrm := splice_remove sib n sub hne hf i
+      have hle := Aux.splice_le sib (fun _ => []) (by intro y k; simp) n q
+      have hq1 : cnt q (splice sib (fun _ => []) n) ≤ 1 := Nat.le_trans hle (hw q)
+      have hcw : pc i (T.node k none (some Frac.zero) none [sub, nc]) = pc i sub + pc i nc := by simp
+      have h4 := Nat.mul_le_mul_right (pc i (T.node k none (some Frac.zero) none [sub, nc])) hq1
+      rw [hcw] at h1 h4; omega
+    · exact hroot
+
+theorem attachLoop_pc (i : Nat × Nat) : ∀ (todo : List T) (n : T) (pts : List Nat) (k : Nat) (sc : List Nat),
+    (∀ j, cnt j n + cntL j todo ≤ 1) → (∀ j, k ≤ j → cnt j n + cntL j todo = 0) →
+    pc i (attachLoop n todo pts k sc).1 ≤ pc i n + pcL i todo
+  | [], n, pts, k, sc, _, _ => by simp [attachLoop]
+  | nc :: todo, n, pts, k, sc, hw, hf => by
+      simp only [attachLoop]
+      generalize pts.getD (sc.headD 0 % pts.length) n.id = sib
+      have hinv := attachStep_inv n nc todo sib k hw hf
+      have ih := attachLoop_pc i todo (attachStep n sib k nc) (pts ++ [k, nc.id]) (k + 1) sc.tail hinv.1 hinv.2
+      have h2 := attachStep_pc i n nc sib k (fun j => by have := hw j; omega)
+      rw [pcL_cons]; omega
+
+mutual
+theorem rpr_pc (p : Nat × Nat) (limit : Nat) : ∀ (t : T) (k : Nat) (sc : List Nat), (∀ i, cnt i t ≤ 1) →
+    (∀ i, k ≤ i → cnt i t = 0) → pc p (rpr limit t k sc).1 ≤ pc p t
+  | .node j x l s cs, k, sc, hw, hf => by
+      have hwL : ∀ i, cntL i cs ≤ 1 := fun i => by have := hw i; rw [cnt_node] at this; omega
+      have hfL : ∀ i, k ≤ i → cntL i cs = 0 := fun i hi => by have := hf i hi; rw [cnt_node] at this; omega
+      have h1 := rprL_cnt limit cs k sc hwL hfL
+      have h0 := rprL_pc p limit cs k sc hwL hfL
+      simp only [rpr]
+      generalize rprL limit cs k sc = R at h1 h0 ⊢
+      split
+      · have hp := rpr_pre j x l s cs R.1 k R.2.1 (R.1.length - limit) R.2.2 hw hf h1.2
+        have hadd := sampleS_add (pcL p) (pcL_append p) (R.1.length - limit) R.1 R.2.2
+        generalize sampleS (R.1.length - limit) R.1 R.2.2 = S at hp hadd ⊢
+        have h2 := attachLoop_pc p S.1.reverse (.node j x l s S.2.1) (S.2.1.map T.id ++ [j]) R.2.1 S.2.2 hp.2.1
+          (fun i hi => hp.2.2 i hi h1.1)
+        rw [pcL_reverse] at h2
+        simp only [pc_node] at h2 ⊢; omega
+      · simp only [pc_node]; omega
+theorem rprL_pc (p : Nat × Nat) (limit : Nat) : ∀ (cs : List T) (k : Nat) (sc : List Nat), (∀ i, cntL i cs ≤ 1) →
+    (∀ i, k ≤ i → cntL i cs = 0) → pcL p (rprL limit cs k sc).1 ≤ pcL p cs
+  | [], k, sc, _, _ => by simp [rprL]
+  | c :: cs, k, sc, hw, hf => by
+      have hwc : ∀ i, cnt i c ≤ 1 := fun i => by have := hw i; rw [cntL_cons] at this; omega
+      have hfc : ∀ i, k ≤ i → cnt i c = 0 := fun i hi => by have := hf i hi; rw [cntL_cons] at this; omega
+      have hk := (rpr_cnt limit c k sc hwc hfc).1
+      have h1 := rpr_pc p limit c k sc hwc hfc
+      have h2 := rprL_pc p limit cs (rpr limit c k sc).2.1 (rpr limit c k sc).2.2
+        (fun i => by have := hw i; rw [cntL_cons] at this; omega)
+        (fun i hi => by have := hf i (by omega); rw [cntL_cons] at this; omega)
+      simp only [rprL, pcL_cons]; omega
+end
+
+end DendroModel.C03.AuxP
+
+
 namespace DendroModel.C03
 open DendroModel DendroModel.C03.Aux DendroModel.C03.AuxR
 
@@ -3299,6 +3710,25 @@ theorem step_wf (s s' : St) (op : Op) (h : WF s.t) (hop : op.SubWF) (hs : step s
         have h3 := ind_le_one (maxId s.t + 1) (rp limit s.t (maxId s.t + 1)).2 i
         have hpos := ind_pos (maxId s.t + 1) (rp limit s.t (maxId s.t + 1)).2 i
         generalize ind (maxId s.t + 1) (rp limit s.t (maxId s.t + 1)).2 i = d at h1 h3 hpos
+        by_cases h0 : d = 0
+        · omega
+        · have := hpos (by omega)
+          have := fresh i (by omega); omega
+      split
+      · exact wf_of_le hw (encodeStruct_le _ _ _)
+      · exact hw
+  | resolveRng limit ub script =>
+    simp only [step] at hs
+    split at hs
+    · cases hs
+    · injection hs with hs; subst hs
+      have hr := (rpr_cnt limit s.t (maxId s.t + 1) script ((wf_iff s.t).mp h) (fun i hi => fresh i (by omega))).2
+      have hw : WF (rpr limit s.t (maxId s.t + 1) script).1 := by
+        rw [wf_iff]; intro i
+        have h1 := hr i; have h2 := (wf_iff s.t).mp h i
+        have h3 := ind_le_one (maxId s.t + 1) (rpr limit s.t (maxId s.t + 1) script).2.1 i
+        have hpos := ind_pos (maxId s.t + 1) (rpr limit s.t (maxId s.t + 1) script).2.1 i
+        generalize ind (maxId s.t + 1) (rpr limit s.t (maxId s.t + 1) script).2.1 i = d at h1 h3 hpos
         by_cases h0 : d = 0
         · omega
         · have := hpos (by omega)
@@ -3633,7 +4063,7 @@ def Op.KeepsAll (t : T) (p : Nat × Nat) : Op → Prop
   | .newChild q _ _ | .insertNewChild q _ _ _ | .addSub q _ | .insertSub q _ _ => p.1 ≠ q   -- nothing is hung under `p`
   | .setParent _ q => p.1 ≠ q
   | .insertMove _ _ _ | .edgeCollapse _ _ | .collapseClade _ | .rerootAtEdge _ _ _ _ _ | .toOutgroup _ _ => True
-  | .resolve _ _ | .reorient _ _ => True
+  | .resolve _ _ | .resolveRng _ _ _ | .reorient _ _ => True
   | .setSeed n => n = t.id ∨ Leaves.lc p (splice n (fun _ => []) t) = 0          -- `p` is not in what is left behind
   | .shuffleTaxa _ => False                      -- taxa move between leaves on purpose: `shuffle_keeps_leaf_taxa`
   | op => op.Keeps t p
@@ -3745,6 +4175,17 @@ theorem step_keeps_leaves (s s' : St) (op : Op) (p : Nat × Nat) (hw : WF s.t) (
       split
       · exact Nat.le_trans h1 (Leaves.encodeStruct_lc p true true ⟨_, s.rooted⟩)
       · exact h1
+  case resolveRng limit ub script =>
+    simp only [step] at hs
+    split at hs
+    · cases hs
+    · rename_i hlim
+      injection hs with hs; subst hs
+      have h1 := rpr_lc p limit (by omega) s.t (maxId s.t + 1) script (fun i => wf_cnt hw i)
+        (fun i hi => cnt_fresh s.t i (by omega))
+      split
+      · exact Nat.le_trans h1 (Leaves.encodeStruct_lc p true true ⟨_, s.rooted⟩)
+      · exact h1
   case reorient k mode =>
     simp only [step] at hs
     split at hs
@@ -3801,6 +4242,24 @@ example : (Op.setParent 4 1).KeepsAll exTree (5, 2) ∧ ¬ (Op.removeChild 0 4 f
     revert this; decide
 example : ((step { t := exTree, rooted := none } (.setParent 4 1)).toOption.map
     (fun s' => Leaves.lc (5, 2) s'.t)) = some 1 := by decide
+
+/-- (A,B,C,D,E) -/
+def exStar : T :=
+  .node 0 none none none [.node 1 (some 0) none none [], .node 2 (some 1) none none [], .node 3 (some 2) none none [],
+    .node 4 (some 3) none none [], .node 5 (some 4) none none []]
+
+/-- non-vacuity for `resolve_polytomies(limit=2, rng=<scripted>)`: the script `[1, 3, 0]` draws B, E, A out of the star
+(C, D stay); A is joined at the node itself (`next_sib is node`: the new node 6 takes over C, D), E at the kept child C
+(new node 7 = (C,E), appended last under 6), B at the new node 6 (new node 8 = (6,B), appended last under the node):
+result (A,(((D,(C,E)),B))) — pre-order ids and parent of every node; every leaf is still a leaf with its taxon -/
+example : ((step { t := exStar, rooted := none } (.resolveRng 2 false [1, 3, 0, 2, 0, 3])).toOption.map
+    (fun s' => (ids s'.t, (ids s'.t).map (fun i => parentOf i s'.t), [1, 2, 3, 4, 5].map (fun i => Leaves.lc (i, i - 1) s'.t)))) =
+    some ([0, 1, 8, 6, 4, 7, 3, 5, 2], [none, some 0, some 0, some 8, some 6, some 6, some 7, some 7, some 8],
+      [1, 1, 1, 1, 1]) := by decide
+/-- `limit < 2` is refused; with `limit = 3` two children are drawn and the script may run dry (missing values are 0) -/
+example : (step { t := exStar, rooted := none } (.resolveRng 1 false [])).toOption.isNone = true ∧
+    ((step { t := exStar, rooted := none } (.resolveRng 3 false [4, 7])).toOption.map (fun s' => ids s'.t)) =
+      some [0, 2, 3, 6, 4, 7, 1, 5] := by decide
 
 /-- **Clause (b) for `shuffle_taxa`**: whatever the random draws, the taxa on the leaves afterwards are a
 permutation of the taxa on the leaves before (`drawTaxa` is a permutation and `assignTaxa` hands every drawn taxon
@@ -4026,6 +4485,16 @@ theorem step_no_new_node_taxon (s s' : St) (op : Op) (p : Nat × Nat) (hw : WF s
     · cases hs
     · injection hs with hs; subst hs
       have h1 := AuxP.rp_pc limit s.t (maxId s.t + 1) p
+      split
+      · exact Nat.le_trans (AuxP.encodeStruct_le _ _ _ p) h1
+      · exact h1
+  | resolveRng limit ub script =>
+    simp only [step] at hs
+    split at hs
+    · cases hs
+    · injection hs with hs; subst hs
+      have h1 := AuxP.rpr_pc p limit s.t (maxId s.t + 1) script (fun i => wf_cnt hw i)
+        (fun i hi => cnt_fresh s.t i (by omega))
       split
       · exact Nat.le_trans (AuxP.encodeStruct_le _ _ _ p) h1
       · exact h1
@@ -4276,5 +4745,2247 @@ example : let t : T := .node 0 none none none [.node 1 (some 0) none none []]
   apply HeapAux.agree (Heap.ofTree none Heap.empty t) h none t _ (ofTree_repr t hwt)
   intro y hy
   exact HeapAux.ofTree_outside w none _ y (by revert hy; revert y; decide)
+
+end DendroModel.C03
+
+
+/-! # heap refinement of the remaining pointer primitives (setter, Edge.collapse, Edge.invert, remove_child suppress branch) -/
+namespace DendroModel.C03.AuxH
+open DendroModel DendroModel.C03 DendroModel.C03.Aux DendroModel.C03.HeapAux DendroModel.C03.AuxR
+
+/-! ### generic local surgery: `splice c f` against a heap that changed only around `c` -/
+
+mutual
+theorem spliceF_notin (c : Nat) (f : T → List T) : ∀ t : T, c ∉ ids t → splice c f t = t
+  | .node i tx ln lb cs, h => by
+      simp only [ids, List.mem_cons, not_or] at h
+      simp [splice, spliceFL_notin c f cs h.2]
+theorem spliceFL_notin (c : Nat) (f : T → List T) : ∀ cs : List T, c ∉ idsL cs → spliceL c f cs = cs
+  | [], _ => by simp [spliceL]
+  | x :: xs, h => by
+      simp only [idsL, List.mem_append, not_or] at h
+      have hx : x.id ≠ c := fun e => h.1 (e ▸ id_mem_ids x)
+      have hb : (x.id == c) = false := by simp [hx]
+      simp only [spliceL, hb]
+      rw [spliceF_notin c f x h.1, spliceFL_notin c f xs h.2]; rfl
+end
+
+/-- the first sibling whose subtree contains `c` -/
+theorem mem_idsL_split (c : Nat) : ∀ cs : List T, c ∈ idsL cs →
+    ∃ pre x post, cs = pre ++ x :: post ∧ c ∈ ids x ∧ c ∉ idsL pre
+  | [], h => by simp [idsL] at h
+  | y :: ys, h => by
+      by_cases hy : c ∈ ids y
+      · exact ⟨[], y, ys, rfl, hy, by simp [idsL]⟩
+      · simp only [idsL, List.mem_append] at h
+        rcases h with h | h
+        · exact absurd h hy
+        · obtain ⟨pre, x, post, e, hx, hpre⟩ := mem_idsL_split c ys h
+          refine ⟨y :: pre, x, post, by rw [e]; rfl, hx, ?_⟩
+          simp only [idsL, List.mem_append, not_or]; exact ⟨hy, hpre⟩
+
+theorem spliceL_decomp (c : Nat) (f : T → List T) (x : T) (post : List T) (hpost : c ∉ idsL post) :
+    ∀ pre : List T, c ∉ idsL pre →
+    spliceL c f (pre ++ x :: post) = pre ++ (if x.id == c then f x else [splice c f x]) ++ post
+  | [], _ => by
+      by_cases hb : (x.id == c) = true
+      · simp [spliceL, hb]
+      · simp [spliceL, hb, spliceFL_notin c f post hpost]
+  | y :: ys, h => by
+      simp only [idsL, List.mem_append, not_or] at h
+      have hy : y.id ≠ c := fun e => h.1 (e ▸ id_mem_ids y)
+      have hb : (y.id == c) = false := by simp [hy]
+      simp only [List.cons_append, spliceL, hb]
+      rw [spliceF_notin c f y h.1, spliceL_decomp c f x post hpost ys h.2]; rfl
+
+theorem size_le_sizeL : ∀ (cs : List T) (x : T), x ∈ cs → x.size ≤ T.sizeL cs
+  | [], _, h => by simp at h
+  | y :: ys, x, h => by
+      simp only [List.mem_cons] at h
+      simp only [T.sizeL]
+      rcases h with rfl | h
+      · omega
+      · have := size_le_sizeL ys x h; omega
+
+theorem ids_sub_idsL : ∀ (cs : List T) (x : T), x ∈ cs → ∀ y ∈ ids x, y ∈ idsL cs
+  | [], _, h, _, _ => by simp at h
+  | z :: zs, x, h, y, hy => by
+      simp only [List.mem_cons] at h
+      simp only [idsL, List.mem_append]
+      rcases h with rfl | h
+      · exact Or.inl hy
+      · exact Or.inr (ids_sub_idsL zs x h y hy)
+
+/-- what a heap `h'` must satisfy to be "`h` after the children list of `p` was rewritten around its child `c`" -/
+structure LocalOK (h h' : Heap) (p c : Nat) (f : T → List T) : Prop where
+  far : ∀ x, x ≠ p → x ≠ c → x ∉ h.ch c → h'.par x = h.par x ∧ h'.ch x = h.ch x
+  parP : p ≠ c → p ∉ h.ch c → h'.par p = h.par p
+  loc : ∀ (pre post : List T) (n : T), n.id = c → ReprL h (some p) (pre ++ n :: post) →
+        (p :: idsL (pre ++ n :: post)).Nodup → h.ch p = (pre ++ n :: post).map T.id →
+        h'.ch p = (pre ++ f n ++ post).map T.id ∧ ReprL h' (some p) (f n)
+
+theorem repr_root_par (h : Heap) (q : Option Nat) : ∀ t : T, Repr h q t → h.par t.id = q
+  | .node _ _ _ _ _, hr => by simp only [Repr] at hr; exact hr.1
+
+theorem repr_root_ch (h : Heap) (q : Option Nat) : ∀ t : T, Repr h q t → h.ch t.id = t.cs.map T.id
+  | .node _ _ _ _ _, hr => by simp only [Repr] at hr; exact hr.2.1
+
+theorem spliceG_repr (h h' : Heap) (p c : Nat) (f : T → List T) (ok : LocalOK h h' p c f) (hp : h.par c = some p) :
+    ∀ (n : Nat) (q : Option Nat) (t : T), t.size ≤ n → Repr h q t → (ids t).Nodup → c ∈ ids t → c ≠ t.id →
+      Repr h' q (splice c f t) := by
+  intro n
+  induction n with
+  | zero => intro q t hs; cases t; simp [T.size] at hs
+  | succ n ih =>
+    intro q t hs hr hnd hc hne
+    cases t with
+    | node i tx ln lb cs =>
+    simp only [T.size] at hs
+    simp only [ids, List.nodup_cons] at hnd
+    simp only [ids, List.mem_cons] at hc
+    simp only [T.id] at hne
+    have hcL : c ∈ idsL cs := by rcases hc with rfl | hc; exact absurd rfl hne; exact hc
+    obtain ⟨pre, x, post, e, hcx, hcpre⟩ := mem_idsL_split c cs hcL
+    subst e
+    simp only [Repr] at hr
+    obtain ⟨hpi, hchi, hrl⟩ := hr
+    have hsp := reprL_split h (some i) pre (x :: post) hrl
+    have hrx : Repr h (some i) x := by have := hsp.2; simp only [ReprL] at this; exact this.1
+    have hrpost : ReprL h (some i) post := by have := hsp.2; simp only [ReprL] at this; exact this.2
+    have hnd2 := hnd.2
+    simp only [idsL_append, idsL] at hnd2
+    have hi_all := hnd.1
+    simp only [idsL_append, idsL, List.mem_append, not_or] at hi_all
+    have hdis1 : ∀ a ∈ idsL pre, ∀ b ∈ ids x ++ idsL post, a ≠ b := (List.nodup_append.mp hnd2).2.2
+    have hnd_rest := (List.nodup_append.mp hnd2).2.1
+    have hndx := (List.nodup_append.mp hnd_rest).1
+    have hdis2 : ∀ a ∈ ids x, ∀ b ∈ idsL post, a ≠ b := (List.nodup_append.mp hnd_rest).2.2
+    have hcpost : c ∉ idsL post := fun hm => hdis2 c hcx c hm rfl
+    have hic : i ≠ c := fun e => hi_all.2.1 (e ▸ hcx)
+    -- the children of `c` live inside `x`
+    have hchc : ∀ y ∈ h.ch c, y ∈ ids x := fun y hy => ch_sub_ids h (some i) x hrx c hcx y hy
+    have hi_chc : i ∉ h.ch c := fun hm => hi_all.2.1 (hchc i hm)
+    simp only [splice, Repr]
+    rw [spliceL_decomp c f x post hcpost pre hcpre]
+    by_cases hxc : x.id = c
+    · -- `c` is this child: `p = i`
+      have hpi' : p = i := by
+        have := repr_root_par h (some i) x hrx
+        rw [hxc, hp] at this; exact Option.some.inj this
+      subst hpi'
+      have hb : (x.id == c) = true := by simp [hxc]
+      simp only [hb, if_true]
+      have hndall : (p :: idsL (pre ++ x :: post)).Nodup := List.nodup_cons.mpr hnd
+      obtain ⟨hch', hrf⟩ := ok.loc pre post x hxc hrl hndall hchi
+      refine ⟨by rw [ok.parP hic hi_chc]; exact hpi, hch', ?_⟩
+      apply reprL_append
+      · apply reprL_append
+        · apply agreeL h h' (some p) pre _ hsp.1
+          intro y hy
+          have hyp : y ≠ p := fun e => hi_all.1 (e ▸ hy)
+          have hyc : y ≠ c := fun e => hcpre (e ▸ hy)
+          have hych : y ∉ h.ch c := fun hm => hdis1 y hy y (List.mem_append_left _ (hchc y hm)) rfl
+          exact ok.far y hyp hyc hych
+        · exact hrf
+      · apply agreeL h h' (some p) post _ hrpost
+        intro y hy
+        have hyp : y ≠ p := fun e => hi_all.2.2 (e ▸ hy)
+        have hyc : y ≠ c := fun e => hcpost (e ▸ hy)
+        have hych : y ∉ h.ch c := fun hm => hdis2 y (hchc y hm) y hy rfl
+        exact ok.far y hyp hyc hych
+    · -- `c` strictly inside `x`
+      have hb : (x.id == c) = false := by simp [hxc]
+      simp only [hb, Bool.false_eq_true, if_false]
+      have hcne : c ≠ x.id := fun e => hxc e.symm
+      have hpx : p ∈ ids x := parent_in h c p (some i) x hrx hcx hcne hp
+      have hip : i ≠ p := fun e => hi_all.2.1 (e ▸ hpx)
+      have hxs : x.size ≤ n := by
+        have := size_le_sizeL (pre ++ x :: post) x (by simp); omega
+      have hrx' := ih (some i) x hxs hrx hndx hcx hcne
+      have hfi := ok.far i hip hic hi_chc
+      refine ⟨by rw [hfi.1]; exact hpi, ?_, ?_⟩
+      · rw [hfi.2, hchi]; simp [splice_id]
+      · apply reprL_append
+        · apply reprL_append
+          · apply agreeL h h' (some i) pre _ hsp.1
+            intro y hy
+            have hyp : y ≠ p := fun e => hdis1 y hy y (List.mem_append_left _ (e ▸ hpx)) rfl
+            have hyc : y ≠ c := fun e => hcpre (e ▸ hy)
+            have hych : y ∉ h.ch c := fun hm => hdis1 y hy y (List.mem_append_left _ (hchc y hm)) rfl
+            exact ok.far y hyp hyc hych
+          · simp only [ReprL, and_true]; exact hrx'
+        · apply agreeL h h' (some i) post _ hrpost
+          intro y hy
+          have hyp : y ≠ p := fun e => hdis2 y (e ▸ hpx) y hy rfl
+          have hyc : y ≠ c := fun e => hcpost (e ▸ hy)
+          have hych : y ∉ h.ch c := fun hm => hdis2 y (hchc y hm) y hy rfl
+          exact ok.far y hyp hyc hych
+
+/-! ### the subtree found at `c` is represented where it hangs -/
+
+theorem mem_iff_cnt (c : Nat) (t : T) : c ∈ ids t ↔ 1 ≤ cnt c t := by
+  simp [cnt, List.one_le_count_iff]
+
+theorem find_self (c : Nat) : ∀ x : T, x.id = c → T.find? c x = some x
+  | .node j a b d e, hx => by simp only [T.id] at hx; simp [T.find?, hx]
+
+mutual
+theorem find_sub (h : Heap) (c : Nat) : ∀ (q : Option Nat) (t sub : T), Repr h q t → (ids t).Nodup →
+    T.find? c t = some sub → c ≠ t.id →
+    ∃ p, h.par c = some p ∧ Repr h (some p) sub ∧ p ∉ ids sub ∧ p ∈ ids t ∧ (ids sub).Nodup
+  | q, .node i tx ln lb cs, sub, hr, hnd, hf, hne => by
+      simp only [T.id] at hne
+      have hci : (c == i) = false := by simp [hne]
+      simp only [T.find?, hci] at hf
+      simp only [ids, List.nodup_cons] at hnd
+      simp only [Repr] at hr
+      obtain ⟨p, h1, h2, h3, h4, h5⟩ := findL_sub h c i cs sub hr.2.2 hnd.1 hnd.2 hf
+      refine ⟨p, h1, h2, h3, ?_, h5⟩
+      simp only [ids, List.mem_cons]
+      rcases h4 with e | h4
+      · exact Or.inl e
+      · exact Or.inr h4
+theorem findL_sub (h : Heap) (c : Nat) : ∀ (i : Nat) (cs : List T) (sub : T), ReprL h (some i) cs →
+    i ∉ idsL cs → (idsL cs).Nodup → T.findL? c cs = some sub →
+    ∃ p, h.par c = some p ∧ Repr h (some p) sub ∧ p ∉ ids sub ∧ (p = i ∨ p ∈ idsL cs) ∧ (ids sub).Nodup
+  | _, [], _, _, _, _, hf => by simp [T.findL?] at hf
+  | i, x :: xs, sub, hr, hi, hnd, hf => by
+      simp only [idsL, List.mem_append, not_or] at hi
+      simp only [idsL] at hnd
+      have hndx := (List.nodup_append.mp hnd).1
+      have hndxs := (List.nodup_append.mp hnd).2.1
+      simp only [ReprL] at hr
+      simp only [T.findL?] at hf
+      by_cases hx : x.id = c
+      · rw [find_self c x hx] at hf
+        injection hf with hf; subst hf
+        have hpar := repr_root_par h (some i) x hr.1
+        rw [hx] at hpar
+        exact ⟨i, hpar, hr.1, hi.1, Or.inl rfl, hndx⟩
+      · split at hf
+        · rename_i r hfr
+          injection hf with hf; subst hf
+          obtain ⟨p, h1, h2, h3, h4, h5⟩ := find_sub h c (some i) x r hr.1 hndx hfr (fun e => hx e.symm)
+          exact ⟨p, h1, h2, h3, Or.inr (by simp only [idsL, List.mem_append]; exact Or.inl h4), h5⟩
+        · obtain ⟨p, h1, h2, h3, h4, h5⟩ := findL_sub h c i xs sub hr.2 hi.2 hndxs hf
+          refine ⟨p, h1, h2, h3, ?_, h5⟩
+          rcases h4 with e | h4
+          · exact Or.inl e
+          · exact Or.inr (by simp only [idsL, List.mem_append]; exact Or.inr h4)
+end
+
+/-- after `remove_child`, the removed subtree is represented on its own, parentless -/
+theorem detached_repr (h : Heap) (p c : Nat) (sub : T) (hs : Repr h (some p) sub) (hid : sub.id = c)
+    (hp : p ∉ ids sub) (hnd : (ids sub).Nodup) : Repr (rmHeap h p c) none sub := by
+  cases sub with
+  | node j tx ln lb cs =>
+  simp only [T.id] at hid; subst hid
+  simp only [ids, List.mem_cons, not_or] at hp
+  simp only [ids, List.nodup_cons] at hnd
+  simp only [Repr] at hs ⊢
+  refine ⟨by simp [rmHeap], ?_, frameL h p j (some j) cs hnd.1 hp.2 hs.2.2⟩
+  have : j ≠ p := fun e => hp.1 e.symm
+  simp [rmHeap, this, hs.2.1]
+
+end DendroModel.C03.AuxH
+
+namespace DendroModel.C03.AuxH
+open DendroModel DendroModel.C03 DendroModel.C03.Aux DendroModel.C03.HeapAux DendroModel.C03.AuxR
+
+/-- the managed setter is "remove from the old parent, then `add_child` under the new one" -/
+theorem setParent_eq (h : Heap) (c p q : Nat) (hp : h.par c = some p) :
+    Heap.setParent h c (some q) = Heap.addChild (rmHeap h p c) q c := by
+  have e1 : (fun y => if y = c then some q else if y = c then none else h.par y) =
+      (fun y => if y = c then some q else h.par y) := by
+    funext y; by_cases hy : y = c <;> simp [hy]
+  simp only [Heap.setParent, hp, Heap.addChild, rmHeap, Heap.setPar, Heap.setCh, e1]
+
+theorem setParent_repr_aux (h : Heap) (t sub : T) (c q : Nat) (hr : Repr h none t) (hw : WF t)
+    (hf : T.find? c t = some sub) (hne : c ≠ t.id) (hq : q ∈ ids t) (hqs : q ∉ ids sub) :
+    Repr (Heap.setParent h c (some q)) none (setParent c q t) := by
+  obtain ⟨p, hp, hsub, hps, _, hnds⟩ := find_sub h c none t sub hr hw hf hne
+  have hc : c ∈ ids t := (mem_iff_cnt c t).2 (find_pos c t sub hf)
+  have hr1 : Repr (rmHeap h p c) none (splice c (fun _ => []) t) := spliceNil_repr h p c none t hr hw hc hne hp
+  have hid : sub.id = c := find_id c t sub hf
+  have hrs : Repr (rmHeap h p c) none sub := detached_repr h p c sub hsub hid hps hnds
+  have hex := Aux.splice_exact c (fun _ => []) t sub (fun e => hne e.symm) hf (wf_cnt hw c)
+  have hw1 : WF (splice c (fun _ => []) t) := wf_of_le hw (fun i => by have := hex i; simp at this; omega)
+  have hdis : ∀ y ∈ ids sub, y ∉ ids (splice c (fun _ => []) t) := by
+    intro y hy hy1
+    have h1 := (mem_iff_cnt y sub).1 hy
+    have h2 := (mem_iff_cnt y _).1 hy1
+    have := hex y; have := wf_cnt hw y; simp at *; omega
+  have hq1 : q ∈ ids (splice c (fun _ => []) t) := by
+    rw [mem_iff_cnt] at hq ⊢
+    have h0 : cnt q sub = 0 := by
+      cases hh : cnt q sub with
+      | zero => rfl
+      | succ k => exact absurd ((mem_iff_cnt q sub).2 (by omega)) hqs
+    have := hex q; simp at this; omega
+  have hnot : sub.id ∉ (rmHeap h p c).ch q := by
+    intro hm
+    have := ch_sub_ids _ none _ hr1 q hq1 sub.id hm
+    exact hdis sub.id (id_mem_ids sub) this
+  have hmain := addChild_subtree_repr (rmHeap h p c) (splice c (fun _ => []) t) sub q hr1 hrs hw1 hnds hdis hqs hnot
+  rw [setParent_eq h c p q hp]
+  simp only [setParent, hf]
+  rw [hid] at hmain
+  exact hmain
+
+end DendroModel.C03.AuxH
+
+namespace DendroModel.C03.AuxH
+open DendroModel DendroModel.C03 DendroModel.C03.Aux DendroModel.C03.HeapAux DendroModel.C03.AuxR
+
+/-! ### `Edge.collapse` -/
+
+/-- the insertion loop of `Edge.collapse`: `for child in children: parent.insert_child(pos, child); pos += 1` -/
+def foldIns (p : Nat) (ks : List Nat) (h : Heap) (pos : Nat) : Heap :=
+  (ks.foldl (fun (acc : Heap × Nat) c => (Heap.insertChild acc.1 p acc.2 c, acc.2 + 1)) (h, pos)).1
+
+theorem foldIns_nil (p : Nat) (h : Heap) (pos : Nat) : foldIns p [] h pos = h := rfl
+theorem foldIns_cons (p k : Nat) (ks : List Nat) (h : Heap) (pos : Nat) :
+    foldIns p (k :: ks) h pos = foldIns p ks (Heap.insertChild h p pos k) (pos + 1) := rfl
+
+theorem insertChild_absent (h : Heap) (p k : Nat) (X Y : List Nat) (hch : h.ch p = X ++ Y) (hk : k ∉ X ∧ k ∉ Y) :
+    (Heap.insertChild h p X.length k).ch p = (X ++ [k]) ++ Y ∧
+    (∀ y, y ≠ p → (Heap.insertChild h p X.length k).ch y = h.ch y) ∧
+    (Heap.insertChild h p X.length k).par k = some p ∧
+    (∀ y, y ≠ k → (Heap.insertChild h p X.length k).par y = h.par y) := by
+  have hc : (h.ch p).idxOf? k = none := by
+    rw [List.idxOf?_eq_none_iff, hch]; simp [hk.1, hk.2]
+  have hc' : List.idxOf? k (X ++ Y) = none := hch ▸ hc
+  refine ⟨?_, ?_, ?_, ?_⟩
+  · simp [Heap.insertChild, hch, hc', Heap.setPar, Heap.setCh, Heap.insertAtN]
+  · intro y hy; simp [Heap.insertChild, hc, Heap.setPar, Heap.setCh, hy]
+  · simp [Heap.insertChild, hc, Heap.setPar, Heap.setCh]
+  · intro y hy; simp [Heap.insertChild, hc, Heap.setPar, Heap.setCh, hy]
+
+theorem foldIns_spec (p : Nat) : ∀ (ks : List Nat) (h : Heap) (X Y : List Nat), h.ch p = X ++ Y →
+    (∀ k ∈ ks, k ∉ X ∧ k ∉ Y) → ks.Nodup →
+    (foldIns p ks h X.length).ch p = X ++ ks ++ Y ∧
+    (∀ y, y ≠ p → (foldIns p ks h X.length).ch y = h.ch y) ∧
+    (∀ k ∈ ks, (foldIns p ks h X.length).par k = some p) ∧
+    (∀ y, y ∉ ks → (foldIns p ks h X.length).par y = h.par y)
+  | [], h, X, Y, hch, _, _ => by simp [foldIns_nil, hch]
+  | k :: ks, h, X, Y, hch, hk, hnd => by
+      have hk0 := hk k (by simp)
+      obtain ⟨a1, a2, a3, a4⟩ := insertChild_absent h p k X Y hch hk0
+      have hnd' := List.nodup_cons.mp hnd
+      have hks : ∀ k' ∈ ks, k' ∉ X ++ [k] ∧ k' ∉ Y := by
+        intro k' hk'
+        have := hk k' (by simp [hk'])
+        have hne : k' ≠ k := fun e => hnd'.1 (e ▸ hk')
+        simp [this.1, this.2, hne]
+      have ih := foldIns_spec p ks (Heap.insertChild h p X.length k) (X ++ [k]) Y a1 hks hnd'.2
+      have hlen : (X ++ [k]).length = X.length + 1 := by simp
+      rw [hlen] at ih
+      rw [foldIns_cons]
+      obtain ⟨b1, b2, b3, b4⟩ := ih
+      refine ⟨by rw [b1]; simp, fun y hy => by rw [b2 y hy, a2 y hy], ?_, ?_⟩
+      · intro k' hk'
+        simp only [List.mem_cons] at hk'
+        rcases hk' with rfl | hk'
+        · rw [b4 k' hnd'.1]; exact a3
+        · exact b3 k' hk'
+      · intro y hy
+        simp only [List.mem_cons, not_or] at hy
+        rw [b4 y hy.2, a4 y hy.1]
+
+theorem idxOf_mid (c : Nat) (B : List Nat) : ∀ A : List Nat, c ∉ A → (A ++ c :: B).idxOf? c = some A.length
+  | [], _ => by simp [List.idxOf?_cons]
+  | a :: A, h => by
+      simp only [List.mem_cons, not_or] at h
+      have hne : a ≠ c := fun e => h.1 e.symm
+      simp [List.idxOf?_cons, hne, idxOf_mid c B A h.2]
+
+theorem map_id_sublist : ∀ cs : List T, (cs.map T.id).Sublist (idsL cs)
+  | [] => by simp [idsL]
+  | x :: xs => by
+      cases x with
+      | node i a b d e =>
+        simp only [List.map_cons, T.id, idsL, ids, List.cons_append]
+        exact List.Sublist.cons_cons _ ((map_id_sublist xs).trans (List.sublist_append_right _ _))
+
+theorem kid_ne_desc : ∀ (cs : List T), (idsL cs).Nodup → ∀ (ch : T) (x k : Nat), ch ∈ cs → x ∈ idsL ch.cs →
+    k ∈ cs.map T.id → x ≠ k
+  | [], _, _, _, _, hch, _, _ => by simp at hch
+  | z :: zs, hnd, ch, x, k, hch, hx, hk => by
+      simp only [idsL] at hnd
+      have hndz := (List.nodup_append.mp hnd).1
+      have hndzs := (List.nodup_append.mp hnd).2.1
+      have hdis : ∀ a ∈ ids z, ∀ b ∈ idsL zs, a ≠ b := (List.nodup_append.mp hnd).2.2
+      simp only [List.mem_cons] at hch
+      simp only [List.map_cons, List.mem_cons] at hk
+      have hxch : x ∈ ids ch := by cases ch; simp only [T.cs] at hx; simp [ids, hx]
+      rcases hch with rfl | hch
+      · rcases hk with rfl | hk
+        · cases ch with
+          | node i a b d e =>
+            simp only [T.cs] at hx
+            simp only [ids, List.nodup_cons] at hndz
+            simp only [T.id]
+            intro e1; exact hndz.1 (e1 ▸ hx)
+        · exact hdis x hxch k (map_id_sub_idsL zs k hk)
+      · have hx' : x ∈ idsL zs := ids_sub_idsL zs ch hch x hxch
+        rcases hk with rfl | hk
+        · exact fun e1 => hdis z.id (id_mem_ids z) x hx' e1.symm
+        · exact kid_ne_desc zs hndzs ch x k hch hx hk
+
+/-- a represented subtree stays represented (under a possibly new parent) when only its root's parent pointer changed -/
+theorem repr_reparent (h h' : Heap) (q q' : Option Nat) : ∀ u : T, Repr h q u →
+    (∀ x ∈ idsL u.cs, h'.par x = h.par x ∧ h'.ch x = h.ch x) → h'.par u.id = q' → h'.ch u.id = h.ch u.id →
+    Repr h' q' u
+  | .node j a b d e, hr, hag, hp, hc => by
+      simp only [T.id, T.cs] at hag hp hc
+      simp only [Repr] at hr ⊢
+      exact ⟨hp, by rw [hc]; exact hr.2.1, agreeL h h' (some j) e hag hr.2.2⟩
+
+theorem withLen_repr (h : Heap) (q : Option Nat) (l : Option Frac) : ∀ u : T, Repr h q u → Repr h q (u.withLen l)
+  | .node j a b d e, hr => by simp only [T.withLen, Repr] at hr ⊢; exact hr
+
+/-- the children handed over by `Edge.collapse` (with whatever new lengths `g` gives them) are represented under `p` -/
+theorem kids_repr (h h' : Heap) (p : Nat) (g : T → Option Frac) (all : List T)
+    (hpar : ∀ k ∈ all.map T.id, h'.par k = some p)
+    (hch : ∀ k ∈ all.map T.id, h'.ch k = h.ch k)
+    (hdeep : ∀ ch ∈ all, ∀ x ∈ idsL ch.cs, h'.par x = h.par x ∧ h'.ch x = h.ch x) (c : Nat) :
+    ∀ cs : List T, (∀ ch ∈ cs, ch ∈ all) → ReprL h (some c) cs →
+      ReprL h' (some p) (cs.map (fun ch => ch.withLen (g ch)))
+  | [], _, _ => by simp [ReprL]
+  | x :: xs, hsub, hr => by
+      simp only [ReprL] at hr
+      simp only [List.map_cons, ReprL]
+      have hx : x ∈ all := hsub x (by simp)
+      have hxid : x.id ∈ all.map T.id := List.mem_map.mpr ⟨x, hx, rfl⟩
+      refine ⟨withLen_repr h' (some p) _ x ?_, kids_repr h h' p g all hpar hch hdeep c xs
+        (fun ch hc => hsub ch (by simp [hc])) hr.2⟩
+      exact repr_reparent h h' (some c) (some p) x hr.1 (hdeep x hx) (hpar _ hxid) (hch _ hxid)
+
+theorem collapseKids_eq (adjust : Bool) (n : T) :
+    collapseKids adjust n = n.cs.map (fun ch => ch.withLen (if adjust then addLen ch.len n.len else ch.len)) := by
+  unfold collapseKids
+  apply List.map_congr_left
+  intro ch _
+  cases adjust
+  · cases ch; rfl
+  · rfl
+
+theorem map_id_withLen (g : T → Option Frac) (cs : List T) : (cs.map (fun ch => ch.withLen (g ch))).map T.id = cs.map T.id := by
+  simp [List.map_map, Function.comp_def]
+
+/-- the heap `Edge.collapse` produces -/
+def colHeap (h : Heap) (p c : Nat) : Heap :=
+  foldIns p (h.ch c) (rmHeap h p c) (((h.ch p).idxOf? c).getD 0)
+
+theorem edgeCollapse_eq (h : Heap) (p c : Nat) (hp : h.par c = some p) (hne : (h.ch c).isEmpty = false)
+    (hl : c ∈ h.ch p) : Heap.edgeCollapse h c = some (colHeap h p c) := by
+  simp only [Heap.edgeCollapse, hp, hne, removeChild_eq h p c hl]
+  rfl
+
+theorem insertChild_far (h : Heap) (p idx k : Nat) :
+    (∀ y, y ≠ p → (Heap.insertChild h p idx k).ch y = h.ch y) ∧
+    (∀ y, y ≠ k → (Heap.insertChild h p idx k).par y = h.par y) := by
+  unfold Heap.insertChild
+  cases (h.ch p).idxOf? k with
+  | none => exact ⟨fun y hy => by simp [Heap.setPar, Heap.setCh, hy], fun y hy => by simp [Heap.setPar, Heap.setCh, hy]⟩
+  | some cur =>
+    by_cases e : (cur == idx) = true
+    · exact ⟨fun y _ => by simp [e, Heap.setPar], fun y hy => by simp [e, Heap.setPar, hy]⟩
+    · exact ⟨fun y hy => by simp [e, Heap.setPar, Heap.setCh, hy], fun y hy => by simp [e, Heap.setPar, Heap.setCh, hy]⟩
+
+theorem foldIns_far (p : Nat) : ∀ (ks : List Nat) (h : Heap) (pos : Nat),
+    (∀ y, y ≠ p → (foldIns p ks h pos).ch y = h.ch y) ∧ (∀ y, y ∉ ks → (foldIns p ks h pos).par y = h.par y)
+  | [], h, pos => by simp [foldIns_nil]
+  | k :: ks, h, pos => by
+      have ih := foldIns_far p ks (Heap.insertChild h p pos k) (pos + 1)
+      have hf := insertChild_far h p pos k
+      rw [foldIns_cons]
+      refine ⟨fun y hy => by rw [ih.1 y hy, hf.1 y hy], ?_⟩
+      intro y hy
+      simp only [List.mem_cons, not_or] at hy
+      rw [ih.2 y hy.2, hf.2 y hy.1]
+
+theorem colHeap_ok (h : Heap) (p c : Nat) (adj : Bool) : LocalOK h (colHeap h p c) p c (collapseKids adj) where
+  far := by
+    intro x hxp hxc hxk
+    have hf := foldIns_far p (h.ch c) (rmHeap h p c) (((h.ch p).idxOf? c).getD 0)
+    unfold colHeap
+    rw [hf.1 x hxp, hf.2 x hxk]
+    simp [rmHeap, hxp, hxc]
+  parP := by
+    intro hpc hpk
+    have hf := foldIns_far p (h.ch c) (rmHeap h p c) (((h.ch p).idxOf? c).getD 0)
+    unfold colHeap
+    rw [hf.2 p hpk]
+    simp [rmHeap, hpc]
+  loc := by
+    intro pre post n hn hrl hnd hch
+    have hsp := reprL_split h (some p) pre (n :: post) hrl
+    have hrn : Repr h (some p) n := by have := hsp.2; simp only [ReprL] at this; exact this.1
+    -- distinctness
+    have hnd' := List.nodup_cons.mp hnd
+    have hp_all := hnd'.1
+    have hnd2 := hnd'.2
+    simp only [idsL_append, idsL] at hnd2 hp_all
+    simp only [List.mem_append, not_or] at hp_all
+    have hdis1 : ∀ a ∈ idsL pre, ∀ b ∈ ids n ++ idsL post, a ≠ b := (List.nodup_append.mp hnd2).2.2
+    have hnd_rest := (List.nodup_append.mp hnd2).2.1
+    have hndn := (List.nodup_append.mp hnd_rest).1
+    have hdis2 : ∀ a ∈ ids n, ∀ b ∈ idsL post, a ≠ b := (List.nodup_append.mp hnd_rest).2.2
+    have hcn : c ∈ ids n := hn ▸ id_mem_ids n
+    have hc_pre : c ∉ pre.map T.id := fun hm => hdis1 c (map_id_sub_idsL pre c hm) c (List.mem_append_left _ hcn) rfl
+    have hchc : h.ch c = n.cs.map T.id := by rw [← hn]; exact repr_root_ch h (some p) n hrn
+    have hkn : ∀ k ∈ n.cs.map T.id, k ∈ ids n := by
+      intro k hk; cases n with
+      | node j a b d e => simp only [T.cs] at hk; simp [ids, map_id_sub_idsL e k hk]
+    have hndL : (idsL n.cs).Nodup := by
+      cases n with
+      | node j a b d e => simp only [ids, List.nodup_cons] at hndn; exact hndn.2
+    -- the child list of `p`
+    have hch' : h.ch p = pre.map T.id ++ c :: post.map T.id := by rw [hch]; simp [hn]
+    have hpos : ((h.ch p).idxOf? c).getD 0 = (pre.map T.id).length := by rw [hch', idxOf_mid c _ _ hc_pre]; rfl
+    have hrm : (rmHeap h p c).ch p = pre.map T.id ++ post.map T.id := by
+      simp only [rmHeap, if_true]; rw [hch', erase_mid _ _ c hc_pre]
+    have hks : ∀ k ∈ h.ch c, k ∉ pre.map T.id ∧ k ∉ post.map T.id := by
+      intro k hk; rw [hchc] at hk
+      exact ⟨fun hm => hdis1 k (map_id_sub_idsL pre k hm) k (List.mem_append_left _ (hkn k hk)) rfl,
+             fun hm => hdis2 k (hkn k hk) k (map_id_sub_idsL post k hm) rfl⟩
+    have hksnd : (h.ch c).Nodup := by rw [hchc]; exact (map_id_sublist n.cs).nodup hndL
+    obtain ⟨s1, s2, s3, s4⟩ := foldIns_spec p (h.ch c) (rmHeap h p c) _ _ hrm hks hksnd
+    unfold colHeap
+    rw [hpos]
+    refine ⟨?_, ?_⟩
+    · rw [s1, hchc, collapseKids_eq]; simp
+    · rw [collapseKids_eq]
+      have hp_n : p ∉ ids n := hp_all.2.1
+      apply kids_repr h _ p _ n.cs _ _ _ c n.cs (fun _ hc => hc)
+      · cases n with
+        | node j a b d e => simp only [Repr] at hrn; simp only [T.id] at hn; subst hn; exact hrn.2.2
+      · intro k hk; exact s3 k (hchc ▸ hk)
+      · intro k hk
+        have hkp : k ≠ p := fun e => hp_n (e ▸ hkn k hk)
+        rw [s2 k hkp]; simp [rmHeap, hkp]
+      · intro ch hch0 x hx
+        have hxn : x ∈ ids n := by
+          cases n with
+          | node j a b d e =>
+            simp only [T.cs] at hch0
+            have : x ∈ ids ch := by cases ch; simp only [T.cs] at hx; simp [ids, hx]
+            simp [ids, ids_sub_idsL e ch hch0 x this]
+        have hxp : x ≠ p := fun e => hp_n (e ▸ hxn)
+        have hxk : x ∉ h.ch c := by
+          rw [hchc]; intro hm; exact kid_ne_desc n.cs hndL ch x x hch0 hx hm rfl
+        have hxc : x ≠ c := by
+          intro e
+          cases n with
+          | node j a b d e' =>
+            simp only [T.id] at hn; subst hn
+            simp only [T.cs] at hch0
+            have : x ∈ idsL e' := by
+              have : x ∈ ids ch := by cases ch; simp only [T.cs] at hx; simp [ids, hx]
+              exact ids_sub_idsL e' ch hch0 x this
+            simp only [ids, List.nodup_cons] at hndn
+            exact hndn.1 (e ▸ this)
+        rw [s2 x hxp, s4 x hxk]
+        simp [rmHeap, hxp, hxc]
+
+end DendroModel.C03.AuxH
+
+namespace DendroModel.C03.AuxH
+open DendroModel DendroModel.C03 DendroModel.C03.Aux DendroModel.C03.HeapAux DendroModel.C03.AuxR
+
+theorem root_notin_kids (n : T) (hnd : (ids n).Nodup) : n.id ∉ n.cs.map T.id := by
+  cases n with
+  | node j a b d e =>
+    simp only [ids, List.nodup_cons] at hnd
+    simp only [T.id, T.cs]
+    exact fun hm => hnd.1 (map_id_sub_idsL e j hm)
+
+theorem edgeCollapse_repr_aux (h : Heap) (t n : T) (c : Nat) (adj : Bool) (hr : Repr h none t) (hw : WF t)
+    (hf : T.find? c t = some n) (hne : c ≠ t.id) (hk : n.cs.isEmpty = false) :
+    ∃ h', Heap.edgeCollapse h c = some h' ∧ Repr h' none (splice c (collapseKids adj) t) ∧ h'.par c = none := by
+  obtain ⟨p, hp, hsub, _, _, hnds⟩ := find_sub h c none t n hr hw hf hne
+  have hc : c ∈ ids t := (mem_iff_cnt c t).2 (find_pos c t n hf)
+  have hid : n.id = c := find_id c t n hf
+  have hchc : h.ch c = n.cs.map T.id := by rw [← hid]; exact repr_root_ch h (some p) n hsub
+  have hl : c ∈ h.ch p := child_listed h c p none t hr hc hne hp
+  have hne' : (h.ch c).isEmpty = false := by
+    rw [hchc]; cases hcs : n.cs with
+    | nil => rw [hcs] at hk; simp at hk
+    | cons a b => simp
+  refine ⟨colHeap h p c, edgeCollapse_eq h p c hp hne' hl, ?_, ?_⟩
+  · exact spliceG_repr h _ p c _ (colHeap_ok h p c adj) hp t.size none t (Nat.le_refl _) hr hw hc hne
+  · have hf2 := foldIns_far p (h.ch c) (rmHeap h p c) (((h.ch p).idxOf? c).getD 0)
+    have hck : c ∉ h.ch c := by rw [hchc, ← hid]; exact root_notin_kids n hnds
+    unfold colHeap
+    rw [hf2.2 c hck]; simp [rmHeap]
+
+end DendroModel.C03.AuxH
+
+namespace DendroModel.C03.AuxH
+open DendroModel DendroModel.C03 DendroModel.C03.Aux DendroModel.C03.HeapAux DendroModel.C03.AuxR
+
+theorem addChild_far (h : Heap) (s n : Nat) :
+    (∀ y, y ≠ n → (Heap.addChild h s n).par y = h.par y) ∧ (Heap.addChild h s n).par n = some s ∧
+    (∀ y, y ≠ s → (Heap.addChild h s n).ch y = h.ch y) := by
+  unfold Heap.addChild
+  by_cases e : (h.ch s).contains n = true
+  · simp only [e, if_true]
+    exact ⟨fun y hy => by simp [Heap.setPar, hy], by simp [Heap.setPar], fun y _ => by simp [Heap.setPar]⟩
+  · simp only [e]
+    exact ⟨fun y hy => by simp [Heap.setPar, Heap.setCh, hy], by simp [Heap.setPar, Heap.setCh],
+      fun y hy => by simp [Heap.setPar, Heap.setCh, hy]⟩
+
+/-- `Edge.invert` away from the seed: the grandparent now lists the old head, whose parent pointer was cleared -/
+theorem edgeInvert_inner (h : Heap) (head tail g : Nat) (hpt : h.par head = some tail) (hpg : h.par tail = some g)
+    (hg : tail ∈ h.ch g) (hl : head ∈ h.ch tail) (hgt : g ≠ tail) (hgh : g ≠ head) (hht : head ≠ tail) :
+    ∃ h', Heap.edgeInvert h head = some h' ∧ h'.par head = none ∧ head ∈ h'.ch g ∧ h'.par tail = some head := by
+  have hc : (h.ch g).contains tail = true := by simpa using hg
+  have htg : tail ≠ g := fun e => hgt e.symm
+  have e0 : Heap.edgeInvert h head =
+      match Heap.removeChild (h.setCh g ((h.ch g).map fun x => if x = tail then head else x)) tail head with
+      | none => none
+      | some h1 => some (Heap.addChild h1 head tail) := by
+    simp only [Heap.edgeInvert, hpt, hpg, hc, if_true]; rfl
+  have hl0 : head ∈ (h.setCh g ((h.ch g).map fun x => if x = tail then head else x)).ch tail := by
+    simp [Heap.setCh, htg, hl]
+  have hmem : head ∈ (h.ch g).map (fun x => if x = tail then head else x) :=
+    List.mem_map.mpr ⟨tail, hg, by simp⟩
+  rw [e0, removeChild_eq _ tail head hl0]
+  refine ⟨_, rfl, ?_, ?_, ?_⟩
+  · rw [(addChild_far _ head tail).1 head hht]; simp [rmHeap]
+  · rw [(addChild_far _ head tail).2.2 g hgh]; simp [rmHeap, hgt, Heap.setCh, hmem]
+  · exact (addChild_far _ head tail).2.1
+
+end DendroModel.C03.AuxH
+
+namespace DendroModel.C03.AuxH
+open DendroModel DendroModel.C03 DendroModel.C03.Aux DendroModel.C03.HeapAux DendroModel.C03.AuxR
+
+/-! ### the `suppress_unifurcations=True` tail of `remove_child`, `self` not the seed -/
+
+/-- what replaces a node left with one child: that child, its length increased by the node's (inside a bare `try`) -/
+def liftOnly (n : T) : List T :=
+  match n.cs with
+  | [ch] => [ch.withLen (tryAdd ch.len n.len)]
+  | _ => [n]
+
+mutual
+theorem splice_congr (c : Nat) (f f' : T → List T) : ∀ t : T, (∀ x, T.find? c t = some x → f x = f' x) → cnt c t ≤ 1 →
+    t.id ≠ c → splice c f t = splice c f' t
+  | .node j a b d e, hff, h1, hne => by
+      simp only [T.id] at hne
+      have hcj : (c == j) = false := by simp; omega
+      simp only [splice]
+      rw [spliceL_congr c f f' e (fun x hx => hff x (by simp only [T.find?, hcj]; exact hx)) (by simp [hne] at h1; exact h1)]
+theorem spliceL_congr (c : Nat) (f f' : T → List T) : ∀ cs : List T, (∀ x, T.findL? c cs = some x → f x = f' x) →
+    cntL c cs ≤ 1 → spliceL c f cs = spliceL c f' cs
+  | [], _, _ => by simp [spliceL]
+  | x :: xs, hff, h1 => by
+      simp at h1
+      simp only [spliceL]
+      by_cases hx : x.id = c
+      · have hb : (x.id == c) = true := by simp [hx]
+        simp only [hb, if_true]
+        rw [hff x (by simp only [T.findL?, find_self c x hx])]
+      · have hb : (x.id == c) = false := by simp [hx]
+        simp only [hb, Bool.false_eq_true, if_false]
+        cases hfx : T.find? c x with
+        | some r =>
+          have hp := find_pos c x r hfx
+          rw [Aux.spliceL_notin c f xs (by omega), Aux.spliceL_notin c f' xs (by omega)]
+          rw [splice_congr c f f' x (fun y hy => hff y (by simp only [T.findL?, hy])) (by omega) hx]
+        | none =>
+          have h0 := find_none_cnt c x hfx
+          rw [Aux.splice_notin c f x h0, Aux.splice_notin c f' x h0]
+          rw [spliceL_congr c f f' xs (fun y hy => hff y (by simp only [T.findL?, hfx]; exact hy)) (by omega)]
+end
+
+def supHeap (h1 : Heap) (g p k : Nat) : Heap :=
+  (rmHeap (Heap.insertChild h1 g (((h1.ch g).idxOf? p).getD 0) k) g p).setCh p []
+
+theorem supHeap_par (h1 : Heap) (g p k x : Nat) :
+    (supHeap h1 g p k).par x = if x = p then none else (Heap.insertChild h1 g (((h1.ch g).idxOf? p).getD 0) k).par x := by
+  simp [supHeap, rmHeap, Heap.setCh]
+
+theorem supHeap_ch (h1 : Heap) (g p k x : Nat) :
+    (supHeap h1 g p k).ch x = if x = p then [] else if x = g then
+      ((Heap.insertChild h1 g (((h1.ch g).idxOf? p).getD 0) k).ch g).erase p
+      else (Heap.insertChild h1 g (((h1.ch g).idxOf? p).getD 0) k).ch x := by
+  simp [supHeap, rmHeap, Heap.setCh]
+
+theorem supHeap_ok (h1 : Heap) (g p k : Nat) (hk : h1.ch p = [k]) : LocalOK h1 (supHeap h1 g p k) g p liftOnly where
+  far := by
+    intro x hxg hxp hxk
+    have hxk' : x ≠ k := by rw [hk] at hxk; simpa using hxk
+    have hf := insertChild_far h1 g (((h1.ch g).idxOf? p).getD 0) k
+    rw [supHeap_par, supHeap_ch]
+    simp only [hxp, hxg, if_false]
+    exact ⟨hf.2 x hxk', hf.1 x hxg⟩
+  parP := by
+    intro hgp hgk
+    have hgk' : g ≠ k := by rw [hk] at hgk; simpa using hgk
+    have hf := insertChild_far h1 g (((h1.ch g).idxOf? p).getD 0) k
+    rw [supHeap_par]
+    simp only [hgp, if_false]
+    exact hf.2 g hgk'
+  loc := by
+    intro pre post n hn hrl hnd hch
+    have hsp := reprL_split h1 (some g) pre (n :: post) hrl
+    have hrn : Repr h1 (some g) n := by have := hsp.2; simp only [ReprL] at this; exact this.1
+    have hnd' := List.nodup_cons.mp hnd
+    have hg_all := hnd'.1
+    have hnd2 := hnd'.2
+    simp only [idsL_append, idsL] at hnd2 hg_all
+    simp only [List.mem_append, not_or] at hg_all
+    have hdis1 : ∀ a ∈ idsL pre, ∀ b ∈ ids n ++ idsL post, a ≠ b := (List.nodup_append.mp hnd2).2.2
+    have hnd_rest := (List.nodup_append.mp hnd2).2.1
+    have hndn := (List.nodup_append.mp hnd_rest).1
+    have hdis2 : ∀ a ∈ ids n, ∀ b ∈ idsL post, a ≠ b := (List.nodup_append.mp hnd_rest).2.2
+    have hpn : p ∈ ids n := hn ▸ id_mem_ids n
+    have hgp : g ≠ p := fun e => hg_all.2.1 (e ▸ hpn)
+    have hp_pre : p ∉ pre.map T.id := fun hm => hdis1 p (map_id_sub_idsL pre p hm) p (List.mem_append_left _ hpn) rfl
+    have hchp : h1.ch p = n.cs.map T.id := by rw [← hn]; exact repr_root_ch h1 (some g) n hrn
+    -- `n` has exactly one child, `ch`, whose id is `k`
+    cases n with
+    | node j a b d e =>
+    simp only [T.id] at hn; subst hn
+    simp only [T.cs] at hchp
+    rw [hk] at hchp
+    match e, hchp with
+    | [ch], hchp =>
+    have hkid : ch.id = k := by simpa using hchp.symm
+    simp only [Repr, ReprL, and_true] at hrn
+    have hrch : Repr h1 (some j) ch := hrn.2.2
+    simp only [ids, idsL, List.append_nil, List.nodup_cons] at hndn
+    have hkn : k ∈ ids (T.node j a b d [ch]) := by simp [ids, idsL, ← hkid, id_mem_ids ch]
+    have hkj : k ≠ j := fun e1 => hndn.1 (e1 ▸ hkid ▸ id_mem_ids ch)
+    have hkg : k ≠ g := fun e1 => hg_all.2.1 (e1 ▸ hkn)
+    have hch' : h1.ch g = pre.map T.id ++ j :: post.map T.id := by rw [hch]; simp [T.id]
+    have hpos : ((h1.ch g).idxOf? j).getD 0 = (pre.map T.id).length := by rw [hch', idxOf_mid j _ _ hp_pre]; rfl
+    have hkXY : k ∉ pre.map T.id ∧ k ∉ j :: post.map T.id := by
+      refine ⟨fun hm => hdis1 k (map_id_sub_idsL pre k hm) k (List.mem_append_left _ hkn) rfl, ?_⟩
+      simp only [List.mem_cons, not_or]
+      exact ⟨hkj, fun hm => hdis2 k hkn k (map_id_sub_idsL post k hm) rfl⟩
+    obtain ⟨a1, a2, a3, a4⟩ := insertChild_absent h1 g k (pre.map T.id) (j :: post.map T.id) hch' hkXY
+    rw [← hpos] at a1 a2 a3 a4
+    have hjk : j ∉ pre.map T.id ++ [k] := by
+      simp only [List.mem_append, List.mem_singleton, not_or]; exact ⟨hp_pre, fun e1 => hkj e1.symm⟩
+    refine ⟨?_, ?_⟩
+    · rw [supHeap_ch]
+      simp only [hgp, if_false, if_true, a1]
+      rw [erase_mid _ _ j hjk]
+      simp [liftOnly, T.cs, hkid]
+    · simp only [liftOnly, T.cs, ReprL, and_true]
+      apply withLen_repr
+      apply repr_reparent h1 _ (some j) (some g) ch hrch
+      · intro x hx
+        have hxch : x ∈ ids ch := by cases ch; simp only [T.cs] at hx; simp [ids, hx]
+        have hxk : x ≠ k := by
+          intro e1
+          cases ch with
+          | node i2 a2' b2 d2 e2 =>
+            simp only [T.id] at hkid; subst hkid
+            simp only [T.cs] at hx
+            have := hndn.2; simp only [ids, List.nodup_cons] at this
+            exact this.1 (e1 ▸ hx)
+        have hxj : x ≠ j := fun e1 => hndn.1 (e1 ▸ hxch)
+        have hxg : x ≠ g := fun e1 => hg_all.2.1 (by rw [← e1]; simp [ids, idsL, hxch])
+        rw [supHeap_par, supHeap_ch]
+        simp only [hxj, hxg, if_false]
+        exact ⟨a4 x hxk, a2 x hxg⟩
+      · rw [supHeap_par, hkid]; simp only [hkj, if_false]; exact a3
+      · rw [supHeap_ch, hkid]; simp only [hkj, hkg, if_false]; exact a2 k hkg
+
+end DendroModel.C03.AuxH
+
+namespace DendroModel.C03.AuxH
+open DendroModel DendroModel.C03 DendroModel.C03.Aux DendroModel.C03.HeapAux DendroModel.C03.AuxR
+
+theorem reprL_mem_par (h : Heap) (i : Nat) : ∀ (cs : List T) (x : T), ReprL h (some i) cs → x ∈ cs → h.par x.id = some i
+  | [], _, _, hx => by simp at hx
+  | y :: ys, x, hr, hx => by
+      simp only [ReprL] at hr
+      simp only [List.mem_cons] at hx
+      rcases hx with rfl | hx
+      · exact repr_root_par h (some i) x hr.1
+      · exact reprL_mem_par h i ys x hr.2 hx
+
+mutual
+/-- the tree-level `parentOf` reads the parent pointer -/
+theorem parentOf_repr (h : Heap) (c p : Nat) : ∀ (q : Option Nat) (t : T), Repr h q t → (ids t).Nodup →
+    parentOf c t = some p → h.par c = some p ∧ c ∈ ids t ∧ c ≠ t.id
+  | q, .node i a b d cs, hr, hnd, hpo => by
+      simp only [ids, List.nodup_cons] at hnd
+      simp only [Repr] at hr
+      simp only [parentOf] at hpo
+      split at hpo
+      · rename_i hany
+        injection hpo with hpo; subst hpo
+        obtain ⟨x, hx, hxc⟩ := List.any_eq_true.mp hany
+        have hxc' : x.id = c := by simpa using hxc
+        have hcL : c ∈ idsL cs := hxc' ▸ ids_sub_idsL cs x hx x.id (id_mem_ids x)
+        refine ⟨hxc' ▸ reprL_mem_par h i cs x hr.2.2 hx, by simp [ids, hcL], ?_⟩
+        simp only [T.id]; exact fun e => hnd.1 (e ▸ hcL)
+      · obtain ⟨h1, h2⟩ := parentOfL_repr h c p i cs hr.2.2 hnd.2 hpo
+        refine ⟨h1, by simp [ids, h2], ?_⟩
+        simp only [T.id]; exact fun e => hnd.1 (e ▸ h2)
+theorem parentOfL_repr (h : Heap) (c p : Nat) : ∀ (i : Nat) (cs : List T), ReprL h (some i) cs → (idsL cs).Nodup →
+    parentOfL c cs = some p → h.par c = some p ∧ c ∈ idsL cs
+  | _, [], _, _, hpo => by simp [parentOfL] at hpo
+  | i, x :: xs, hr, hnd, hpo => by
+      simp only [ReprL] at hr
+      simp only [idsL] at hnd
+      simp only [parentOfL] at hpo
+      split at hpo
+      · rename_i p' hp'
+        injection hpo with hpo; subst hpo
+        have := parentOf_repr h c p' (some i) x hr.1 (List.nodup_append.mp hnd).1 hp'
+        exact ⟨this.1, by simp [idsL, this.2.1]⟩
+      · have := parentOfL_repr h c p i xs hr.2 (List.nodup_append.mp hnd).2.1 hpo
+        exact ⟨this.1, by simp [idsL, this.2]⟩
+end
+
+theorem find_exists (c : Nat) (t : T) (hc : c ∈ ids t) : ∃ sub, T.find? c t = some sub := by
+  cases hf : T.find? c t with
+  | some sub => exact ⟨sub, rfl⟩
+  | none => have := find_none_cnt c t hf; have := (mem_iff_cnt c t).1 hc; omega
+
+theorem insertChild_mem (h : Heap) (g idx k p : Nat) (hp : p ∈ h.ch g) (hpk : p ≠ k) :
+    p ∈ (Heap.insertChild h g idx k).ch g := by
+  unfold Heap.insertChild
+  cases (h.ch g).idxOf? k with
+  | none =>
+    simp only [Heap.setPar, Heap.setCh, if_true, Heap.insertAtN]
+    have := List.take_append_drop idx (h.ch g)
+    rw [← this] at hp
+    simp only [List.mem_append, List.mem_cons] at hp ⊢
+    rcases hp with hp | hp
+    · exact Or.inl hp
+    · exact Or.inr (Or.inr hp)
+  | some cur =>
+    by_cases e : (cur == idx) = true
+    · simp [e, Heap.setPar, hp]
+    · have hpe : p ∈ (h.ch g).erase k := (List.mem_erase_of_ne hpk).mpr hp
+      have e' : (cur == idx) = false := by simpa using e
+      simp only [e', Bool.false_eq_true, if_false, Heap.setPar, Heap.setCh, if_true, Heap.insertAtN]
+      have := List.take_append_drop idx ((h.ch g).erase k)
+      rw [← this] at hpe
+      simp only [List.mem_append, List.mem_cons] at hpe ⊢
+      rcases hpe with hpe | hpe
+      · exact Or.inl hpe
+      · exact Or.inr (Or.inr hpe)
+
+/-- everything the removal of `c` from under `p` sets up for the suppress tail -/
+theorem removal_facts (h : Heap) (t : T) (p c : Nat) (hr : Repr h none t) (hw : WF t) (hpo : parentOf c t = some p) :
+    h.par c = some p ∧ c ∈ h.ch p ∧ Repr (rmHeap h p c) none (splice c (fun _ => []) t) ∧
+    WF (splice c (fun _ => []) t) ∧ c ∉ ids (splice c (fun _ => []) t) ∧ p ∈ ids (splice c (fun _ => []) t) ∧ c ≠ p := by
+  obtain ⟨hp, hc, hne⟩ := parentOf_repr h c p none t hr hw hpo
+  obtain ⟨sub, hf⟩ := find_exists c t hc
+  obtain ⟨p', hp', _, hps, hpt, _⟩ := find_sub h c none t sub hr hw hf hne
+  have hpp : p' = p := by rw [hp] at hp'; exact (Option.some.inj hp').symm
+  subst hpp
+  have hex := Aux.splice_exact c (fun _ => []) t sub (fun e => hne e.symm) hf (wf_cnt hw c)
+  have hcs : 1 ≤ cnt c sub := by
+    have := find_id c t sub hf
+    exact (mem_iff_cnt c sub).1 (this ▸ id_mem_ids sub)
+  refine ⟨hp, child_listed h c p' none t hr hc hne hp, spliceNil_repr h p' c none t hr hw hc hne hp,
+    wf_of_le hw (fun i => by have := hex i; simp at this; omega), ?_, ?_, ?_⟩
+  · intro hm
+    have := (mem_iff_cnt c _).1 hm
+    have := hex c; have := wf_cnt hw c; simp at *; omega
+  · rw [mem_iff_cnt]
+    have h1 := (mem_iff_cnt p' t).1 hpt
+    have h0 : cnt p' sub = 0 := by
+      cases hh : cnt p' sub with
+      | zero => rfl
+      | succ k => exact absurd ((mem_iff_cnt p' sub).2 (by omega)) hps
+    have := hex p'; simp at this; omega
+  · intro e; subst e
+    exact hps (by have := find_id c t sub hf; exact this ▸ id_mem_ids sub)
+
+end DendroModel.C03.AuxH
+
+namespace DendroModel.C03.AuxH
+open DendroModel DendroModel.C03 DendroModel.C03.Aux DendroModel.C03.HeapAux DendroModel.C03.AuxR
+
+theorem supTail_eq (h1 : Heap) (g p k : Nat) (hpg : h1.par p = some g) (hk : h1.ch p = [k]) (hl : p ∈ h1.ch g) (hpk : p ≠ k) :
+    (match h1.par p with
+      | some parent =>
+        match h1.ch p with
+        | [child] =>
+          match Heap.removeChild (Heap.insertChild h1 parent (((h1.ch parent).idxOf? p).getD 0) child) parent p with
+          | none => none
+          | some h3 => some (h3.setCh p [])
+        | _ => some h1
+      | none => none) = some (supHeap h1 g p k) := by
+  simp only [hpg, hk]
+  rw [removeChild_eq _ g p (insertChild_mem h1 g _ k p hl hpk)]
+  rfl
+
+/-- `remove_child(node, suppress_unifurcations=True)` at pointer level when `self` is not the seed -/
+theorem removeChildSuppress_nonroot (h : Heap) (t t' : T) (p c : Nat) (hr : Repr h none t) (hw : WF t)
+    (hpo : parentOf c t = some p) (hpr : p ≠ t.id) (ht : removeChild p c true t = .ok t') :
+    ∃ h', Heap.removeChildSuppress h p c = some h' ∧ Repr h' none t' ∧ h'.par c = none := by
+  obtain ⟨hp, hl, hr1, hw1, hc1, hp1, hcp⟩ := removal_facts h t p c hr hw hpo
+  obtain ⟨n1, hf1⟩ := find_exists p _ hp1
+  have hpr1 : p ≠ (splice c (fun _ => []) t).id := by rw [Aux.splice_id]; exact hpr
+  obtain ⟨g, hpg, hrn1, _, _, hndn1⟩ := find_sub _ p none _ n1 hr1 hw1 hf1 hpr1
+  have hid1 : n1.id = p := find_id p _ n1 hf1
+  have hchp : (rmHeap h p c).ch p = n1.cs.map T.id := by
+    have := repr_root_ch _ (some g) n1 hrn1; rw [hid1] at this; exact this
+  have hpo' : (parentOf c t != some p) = false := by simp [hpo]
+  have hpr' : (p != t.id) = true := by simp [hpr]
+  simp only [removeChild, hpo', Bool.false_eq_true, if_false, Bool.not_true, hpr', if_true, hf1, Option.map_some] at ht
+  have e0 : Heap.removeChildSuppress h p c =
+      (match (rmHeap h p c).par p with
+      | some parent =>
+        match (rmHeap h p c).ch p with
+        | [child] =>
+          match Heap.removeChild (Heap.insertChild (rmHeap h p c) parent ((((rmHeap h p c).ch parent).idxOf? p).getD 0) child) parent p with
+          | none => none
+          | some h3 => some (h3.setCh p [])
+        | _ => some (rmHeap h p c)
+      | none => none) := by
+    simp only [Heap.removeChildSuppress, removeChild_eq h p c hl, hpg]
+    rfl
+  have hparc : (rmHeap h p c).par c = none := by simp [rmHeap]
+  cases hcs : n1.cs with
+  | nil =>
+    rw [hcs] at ht hchp
+    simp only at ht
+    injection ht with ht; subst ht
+    refine ⟨rmHeap h p c, ?_, hr1, hparc⟩
+    rw [e0]; simp only [hpg, hchp, List.map_nil]
+  | cons child rest =>
+    cases rest with
+    | cons c2 r2 =>
+      rw [hcs] at ht hchp
+      simp only at ht
+      injection ht with ht; subst ht
+      refine ⟨rmHeap h p c, ?_, hr1, hparc⟩
+      rw [e0]; simp only [hpg, hchp, List.map_cons]
+    | nil =>
+      rw [hcs] at ht hchp
+      simp only [List.map_cons, List.map_nil] at hchp
+      simp only at ht
+      injection ht with ht; subst ht
+      have hl1 : p ∈ (rmHeap h p c).ch g := child_listed _ p g none _ hr1 hp1 hpr1 hpg
+      have hkin : child.id ∈ ids (splice c (fun _ => []) t) :=
+        ch_sub_ids _ none _ hr1 p hp1 child.id (by rw [hchp]; simp)
+      have hpk : p ≠ child.id := by
+        have := root_notin_kids n1 hndn1
+        rw [hid1, hcs] at this
+        simpa using this
+      refine ⟨supHeap (rmHeap h p c) g p child.id, ?_, ?_, ?_⟩
+      · rw [e0]; exact supTail_eq _ g p child.id hpg hchp hl1 hpk
+      · rw [splice_congr p _ liftOnly _ ?_ (wf_cnt hw1 p) (fun e => hpr1 e.symm)]
+        · exact spliceG_repr _ _ g p liftOnly (supHeap_ok _ g p child.id hchp) hpg _ none _ (Nat.le_refl _) hr1 hw1 hp1 hpr1
+        · intro x hx
+          rw [hf1] at hx; injection hx with hx; subst hx
+          simp [liftOnly, hcs]
+      · have hck : c ≠ child.id := fun e => hc1 (e ▸ hkin)
+        rw [supHeap_par]
+        simp only [hcp, if_false]
+        rw [(insertChild_far _ g _ child.id).2 c hck]; exact hparc
+
+end DendroModel.C03.AuxH
+
+namespace DendroModel.C03.AuxH
+open DendroModel DendroModel.C03 DendroModel.C03.Aux DendroModel.C03.HeapAux DendroModel.C03.AuxR
+
+/-! ### dissolving a child of `p` into `p`'s child list, generically (`Edge.collapse`, the root case of `remove_child`) -/
+
+theorem dissolve_ok (h h' : Heap) (p c : Nat) (g : T → T → Option Frac)
+    (hfar_ch : ∀ y, y ≠ p → y ≠ c → h'.ch y = h.ch y)
+    (hfar_par : ∀ y, y ∉ h.ch c → y ≠ c → h'.par y = h.par y)
+    (hkpar : ∀ X Y, h.ch p = X ++ c :: Y → c ∉ X → (∀ k ∈ h.ch c, k ∉ X ∧ k ∉ Y) → (h.ch c).Nodup → ∀ k ∈ h.ch c, h'.par k = some p)
+    (hchp : ∀ X Y, h.ch p = X ++ c :: Y → c ∉ X → (∀ k ∈ h.ch c, k ∉ X ∧ k ∉ Y) → (h.ch c).Nodup →
+      h'.ch p = X ++ h.ch c ++ Y) :
+    LocalOK h h' p c (fun n => n.cs.map (fun ch => ch.withLen (g n ch))) where
+  far := fun x hxp hxc hxk => ⟨hfar_par x hxk hxc, hfar_ch x hxp hxc⟩
+  parP := fun hpc hpk => hfar_par p hpk hpc
+  loc := by
+    intro pre post n hn hrl hnd hch
+    have hsp := reprL_split h (some p) pre (n :: post) hrl
+    have hrn : Repr h (some p) n := by have := hsp.2; simp only [ReprL] at this; exact this.1
+    have hnd' := List.nodup_cons.mp hnd
+    have hp_all := hnd'.1
+    have hnd2 := hnd'.2
+    simp only [idsL_append, idsL] at hnd2 hp_all
+    simp only [List.mem_append, not_or] at hp_all
+    have hdis1 : ∀ a ∈ idsL pre, ∀ b ∈ ids n ++ idsL post, a ≠ b := (List.nodup_append.mp hnd2).2.2
+    have hnd_rest := (List.nodup_append.mp hnd2).2.1
+    have hndn := (List.nodup_append.mp hnd_rest).1
+    have hdis2 : ∀ a ∈ ids n, ∀ b ∈ idsL post, a ≠ b := (List.nodup_append.mp hnd_rest).2.2
+    have hcn : c ∈ ids n := hn ▸ id_mem_ids n
+    have hc_pre : c ∉ pre.map T.id := fun hm => hdis1 c (map_id_sub_idsL pre c hm) c (List.mem_append_left _ hcn) rfl
+    have hchc : h.ch c = n.cs.map T.id := by rw [← hn]; exact repr_root_ch h (some p) n hrn
+    have hkn : ∀ k ∈ n.cs.map T.id, k ∈ ids n := by
+      intro k hk; cases n with
+      | node j a b d e => simp only [T.cs] at hk; simp [ids, map_id_sub_idsL e k hk]
+    have hndL : (idsL n.cs).Nodup := by
+      cases n with
+      | node j a b d e => simp only [ids, List.nodup_cons] at hndn; exact hndn.2
+    have hch' : h.ch p = pre.map T.id ++ c :: post.map T.id := by rw [hch]; simp [hn]
+    have hks : ∀ k ∈ h.ch c, k ∉ pre.map T.id ∧ k ∉ post.map T.id := by
+      intro k hk; rw [hchc] at hk
+      exact ⟨fun hm => hdis1 k (map_id_sub_idsL pre k hm) k (List.mem_append_left _ (hkn k hk)) rfl,
+             fun hm => hdis2 k (hkn k hk) k (map_id_sub_idsL post k hm) rfl⟩
+    have hksnd : (h.ch c).Nodup := by rw [hchc]; exact (map_id_sublist n.cs).nodup hndL
+    have s1 := hchp _ _ hch' hc_pre hks hksnd
+    have s3 := hkpar _ _ hch' hc_pre hks hksnd
+    have hp_n : p ∉ ids n := hp_all.2.1
+    refine ⟨?_, ?_⟩
+    · rw [s1, hchc]; simp
+    · apply kids_repr h _ p (g n) n.cs _ _ _ c n.cs (fun _ hc => hc)
+      · cases n with
+        | node j a b d e => simp only [Repr] at hrn; simp only [T.id] at hn; subst hn; exact hrn.2.2
+      · intro k hk; exact s3 k (hchc ▸ hk)
+      · intro k hk
+        have hkp : k ≠ p := fun e => hp_n (e ▸ hkn k hk)
+        have hkc : k ≠ c := by
+          intro e
+          have := root_notin_kids n hndn
+          rw [hn] at this; exact this (e ▸ hk)
+        exact hfar_ch k hkp hkc
+      · intro ch hch0 x hx
+        have hxn : x ∈ ids n := by
+          cases n with
+          | node j a b d e =>
+            simp only [T.cs] at hch0
+            have : x ∈ ids ch := by cases ch; simp only [T.cs] at hx; simp [ids, hx]
+            simp [ids, ids_sub_idsL e ch hch0 x this]
+        have hxp : x ≠ p := fun e => hp_n (e ▸ hxn)
+        have hxk : x ∉ h.ch c := by
+          rw [hchc]; intro hm; exact kid_ne_desc n.cs hndL ch x x hch0 hx hm rfl
+        have hxc : x ≠ c := by
+          intro e
+          cases n with
+          | node j a b d e' =>
+            simp only [T.id] at hn; subst hn
+            simp only [T.cs] at hch0
+            have : x ∈ idsL e' := by
+              have : x ∈ ids ch := by cases ch; simp only [T.cs] at hx; simp [ids, hx]
+              exact ids_sub_idsL e' ch hch0 x this
+            simp only [ids, List.nodup_cons] at hndn
+            exact hndn.1 (e ▸ this)
+        exact ⟨hfar_par x hxk hxc, hfar_ch x hxp hxc⟩
+
+/-- the insertion loop of `remove_child`'s root case: `for c in reversed(tr_children): self.insert_child(pos, c)` -/
+def foldFix (p pos : Nat) (L : List Nat) (h : Heap) : Heap := L.foldl (fun hh c => Heap.insertChild hh p pos c) h
+
+theorem foldFix_far (p pos : Nat) : ∀ (L : List Nat) (h : Heap),
+    (∀ y, y ≠ p → (foldFix p pos L h).ch y = h.ch y) ∧ (∀ y, y ∉ L → (foldFix p pos L h).par y = h.par y)
+  | [], h => by simp [foldFix]
+  | k :: L, h => by
+      have ih := foldFix_far p pos L (Heap.insertChild h p pos k)
+      have hf := insertChild_far h p pos k
+      have e : foldFix p pos (k :: L) h = foldFix p pos L (Heap.insertChild h p pos k) := rfl
+      rw [e]
+      refine ⟨fun y hy => by rw [ih.1 y hy, hf.1 y hy], ?_⟩
+      intro y hy
+      simp only [List.mem_cons, not_or] at hy
+      rw [ih.2 y hy.2, hf.2 y hy.1]
+
+theorem foldFix_spec (p : Nat) (X : List Nat) : ∀ (L : List Nat) (h : Heap) (Y : List Nat), h.ch p = X ++ Y →
+    (∀ k ∈ L, k ∉ X ∧ k ∉ Y) → L.Nodup →
+    (foldFix p X.length L h).ch p = X ++ L.reverse ++ Y ∧ (∀ k ∈ L, (foldFix p X.length L h).par k = some p)
+  | [], h, Y, hch, _, _ => by simp [foldFix, hch]
+  | k :: L, h, Y, hch, hk, hnd => by
+      have hk0 := hk k (by simp)
+      obtain ⟨a1, _, a3, _⟩ := insertChild_absent h p k X Y hch hk0
+      have hnd' := List.nodup_cons.mp hnd
+      have a1' : (Heap.insertChild h p X.length k).ch p = X ++ (k :: Y) := by rw [a1]; simp
+      have hks : ∀ k' ∈ L, k' ∉ X ∧ k' ∉ k :: Y := by
+        intro k' hk'
+        have := hk k' (by simp [hk'])
+        have hne : k' ≠ k := fun e => hnd'.1 (e ▸ hk')
+        simp [this.1, this.2, hne]
+      have ih := foldFix_spec p X L (Heap.insertChild h p X.length k) (k :: Y) a1' hks hnd'.2
+      have e : foldFix p X.length (k :: L) h = foldFix p X.length L (Heap.insertChild h p X.length k) := rfl
+      rw [e]
+      refine ⟨by rw [ih.1]; simp, ?_⟩
+      intro k' hk'
+      simp only [List.mem_cons] at hk'
+      rcases hk' with rfl | hk'
+      · rw [(foldFix_far p X.length L _).2 k' hnd'.1]; exact a3
+      · exact ih.2 k' hk'
+
+/-- the heap after the root case of `remove_child(…, suppress_unifurcations=True)` dissolved the child `r` of the seed `p` -/
+def disHeap (h : Heap) (p r : Nat) : Heap :=
+  (foldFix p (((h.ch p).idxOf? r).getD 0) (h.ch r).reverse (rmHeap h p r)).setCh r []
+
+theorem disHeap_ok (h : Heap) (p r : Nat) (hpr : p ≠ r) :
+    LocalOK h (disHeap h p r) p r (fun n => n.cs.map (fun ch => ch.withLen ((fun _ c => c.len) n ch))) := by
+  have hf := foldFix_far p (((h.ch p).idxOf? r).getD 0) (h.ch r).reverse (rmHeap h p r)
+  apply dissolve_ok h (disHeap h p r) p r (fun _ c => c.len)
+  · intro y hyp hyr
+    simp only [disHeap, Heap.setCh, hyr, if_false]
+    rw [hf.1 y hyp]; simp [rmHeap, hyp]
+  · intro y hyk hyr
+    simp only [disHeap, Heap.setCh]
+    rw [hf.2 y (by simpa using hyk)]; simp [rmHeap, hyr]
+  · intro X Y hch hrX hks hnd k hk
+    have hrm : (rmHeap h p r).ch p = X ++ Y := by simp only [rmHeap, if_true]; rw [hch, erase_mid _ _ r hrX]
+    have hpos : ((h.ch p).idxOf? r).getD 0 = X.length := by rw [hch, idxOf_mid r _ _ hrX]; rfl
+    have := foldFix_spec p X (h.ch r).reverse (rmHeap h p r) Y hrm (by simpa using hks) ((List.reverse_perm _).nodup_iff.mpr hnd)
+    simp only [disHeap, Heap.setCh, hpos]
+    exact this.2 k (by simpa using hk)
+  · intro X Y hch hrX hks hnd
+    have hrm : (rmHeap h p r).ch p = X ++ Y := by simp only [rmHeap, if_true]; rw [hch, erase_mid _ _ r hrX]
+    have hpos : ((h.ch p).idxOf? r).getD 0 = X.length := by rw [hch, idxOf_mid r _ _ hrX]; rfl
+    have := foldFix_spec p X (h.ch r).reverse (rmHeap h p r) Y hrm (by simpa using hks) ((List.reverse_perm _).nodup_iff.mpr hnd)
+    simp only [disHeap, Heap.setCh, hpr, if_false, hpos]
+    rw [this.1]; simp
+
+end DendroModel.C03.AuxH
+
+namespace DendroModel.C03.AuxH
+open DendroModel DendroModel.C03 DendroModel.C03.Aux DendroModel.C03.HeapAux DendroModel.C03.AuxR
+
+theorem map_withLen_self : ∀ cs : List T, cs.map (fun ch => ch.withLen ch.len) = cs
+  | [] => rfl
+  | x :: xs => by
+      have : x.withLen x.len = x := by cases x; rfl
+      simp only [List.map_cons, this, map_withLen_self xs]
+
+theorem dissolve_root (h1 : Heap) (u : T) (p r : Nat) (hr : Repr h1 none u) (hw : WF u) (hid : u.id = p)
+    (hrin : r ∈ u.cs.map T.id) :
+    Repr (disHeap h1 p r) none (splice r (fun n => n.cs) u) ∧ h1.par r = some p ∧ p ≠ r := by
+  cases u with
+  | node j a b d e =>
+  simp only [T.id] at hid; subst hid
+  simp only [T.cs] at hrin
+  have hw' : (ids (T.node j a b d e)).Nodup := hw
+  simp only [ids, List.nodup_cons] at hw'
+  have hrL : r ∈ idsL e := map_id_sub_idsL e r hrin
+  have hjr : j ≠ r := fun e1 => hw'.1 (e1 ▸ hrL)
+  obtain ⟨x, hx, hxr⟩ := List.mem_map.mp hrin
+  have hpar : h1.par r = some j := by
+    simp only [Repr] at hr
+    exact hxr ▸ reprL_mem_par h1 j e x hr.2.2 hx
+  have hf : (fun n : T => n.cs) = (fun n : T => n.cs.map (fun ch => ch.withLen ((fun _ c => c.len) n ch))) := by
+    funext n; exact (map_withLen_self n.cs).symm
+  refine ⟨?_, hpar, hjr⟩
+  rw [hf]
+  exact spliceG_repr h1 _ j r _ (disHeap_ok h1 j r hjr) hpar _ none _ (Nat.le_refl _) hr hw
+    (by simp [ids, hrL]) (by simp only [T.id]; exact fun e1 => hjr e1.symm)
+
+theorem ids_withLen (x : T) (l : Option Frac) : ids (x.withLen l) = ids x := by cases x; rfl
+
+theorem disHeap_par_out (h1 : Heap) (p r c : Nat) (hcr : c ≠ r) (hck : c ∉ h1.ch r) :
+    (disHeap h1 p r).par c = h1.par c := by
+  have hf := foldFix_far p (((h1.ch p).idxOf? r).getD 0) (h1.ch r).reverse (rmHeap h1 p r)
+  simp only [disHeap, Heap.setCh]
+  rw [hf.2 c (by simpa using hck)]; simp [rmHeap, hcr]
+
+theorem dissolve_eq (h1 : Heap) (p r : Nat) (L : List Nat) (hL : h1.ch p = L) (hl : r ∈ h1.ch p) (hpr : p ≠ r) :
+    (match Heap.removeChild h1 p r with
+      | none => none
+      | some h2 => some (((h2.ch r).reverse.foldl (fun hh c => Heap.insertChild hh p ((L.idxOf? r).getD 0) c) h2).setCh r []))
+      = some (disHeap h1 p r) := by
+  subst hL
+  rw [removeChild_eq h1 p r hl]
+  have hrp : r ≠ p := fun e => hpr e.symm
+  have : (rmHeap h1 p r).ch r = h1.ch r := by simp [rmHeap, hrp]
+  simp only [this]
+  rfl
+
+end DendroModel.C03.AuxH
+
+namespace DendroModel.C03.AuxH
+open DendroModel DendroModel.C03 DendroModel.C03.Aux DendroModel.C03.HeapAux DendroModel.C03.AuxR
+
+theorem repr_root_kids (h : Heap) (q : Option Nat) : ∀ t : T, Repr h q t → ReprL h (some t.id) t.cs
+  | .node _ _ _ _ _, hr => by simp only [Repr] at hr; exact hr.2.2
+
+/-- `remove_child(node, suppress_unifurcations=True)` at pointer level when `self` is the seed -/
+theorem removeChildSuppress_root (h : Heap) (t t' : T) (p c : Nat) (hr : Repr h none t) (hw : WF t)
+    (hpo : parentOf c t = some p) (hpr : p = t.id) (ht : removeChild p c true t = .ok t') :
+    ∃ h', Heap.removeChildSuppress h p c = some h' ∧ Repr h' none t' ∧ h'.par c = none := by
+  obtain ⟨hp, hl, hr1, hw1, hc1, hp1, hcp⟩ := removal_facts h t p c hr hw hpo
+  have hid1 : (splice c (fun _ => []) t).id = p := by rw [Aux.splice_id]; exact hpr.symm
+  have hpar1 : (rmHeap h p c).par p = none := by
+    have := repr_root_par _ none _ hr1; rw [hid1] at this; exact this
+  have hch1 : (rmHeap h p c).ch p = (splice c (fun _ => []) t).cs.map T.id := by
+    have := repr_root_ch _ none _ hr1; rw [hid1] at this; exact this
+  have hparc : (rmHeap h p c).par c = none := by simp [rmHeap]
+  have hpo' : (parentOf c t != some p) = false := by simp [hpo]
+  have hpr' : (p != t.id) = false := by simp [hpr]
+  simp only [removeChild, hpo', Bool.false_eq_true, if_false, Bool.not_true, hpr'] at ht
+  generalize hu : splice c (fun _ => []) t = u at *
+  generalize hh1 : rmHeap h p c = h1 at *
+  have e0 : Heap.removeChildSuppress h p c =
+      (match h1.ch p with
+        | [a, b] =>
+          if !(h1.ch a).isEmpty then
+            (match Heap.removeChild h1 p a with
+              | none => none
+              | some h2 => some (((h2.ch a).reverse.foldl (fun hh c => Heap.insertChild hh p (((h1.ch p).idxOf? a).getD 0) c) h2).setCh a []))
+          else if !(h1.ch b).isEmpty then
+            (match Heap.removeChild h1 p b with
+              | none => none
+              | some h2 => some (((h2.ch b).reverse.foldl (fun hh c => Heap.insertChild hh p (((h1.ch p).idxOf? b).getD 0) c) h2).setCh b []))
+          else some h1
+        | _ => some h1) := by
+    simp only [Heap.removeChildSuppress, removeChild_eq h p c hl, hh1, hpar1]
+    rfl
+  have hkids := repr_root_kids h1 none u hr1
+  rw [hid1] at hkids
+  cases u with
+  | node j x l s cs =>
+  simp only [T.id] at hid1; subst hid1
+  simp only [T.cs] at ht hch1 hkids
+  match cs, ht, hch1, hkids with
+  | [], ht, hch1, _ =>
+    simp only at ht; injection ht with ht; subst ht
+    exact ⟨h1, by rw [e0, hch1]; rfl, hr1, hparc⟩
+  | [a], ht, hch1, _ =>
+    simp only at ht; injection ht with ht; subst ht
+    exact ⟨h1, by rw [e0, hch1]; rfl, hr1, hparc⟩
+  | a :: b :: c3 :: r3, ht, hch1, _ =>
+    simp only at ht; injection ht with ht; subst ht
+    exact ⟨h1, by rw [e0, hch1]; rfl, hr1, hparc⟩
+  | [a, b], ht, hch1, hkids =>
+    simp only [List.map_cons, List.map_nil] at hch1
+    simp only [ReprL, and_true] at hkids
+    have hcha : h1.ch a.id = a.cs.map T.id := repr_root_ch h1 (some j) a hkids.1
+    have hchb : h1.ch b.id = b.cs.map T.id := repr_root_ch h1 (some j) b hkids.2
+    have hain : a.id ∈ ids (T.node j x l s [a, b]) := by simp [ids, idsL, id_mem_ids a]
+    have hbin : b.id ∈ ids (T.node j x l s [a, b]) := by simp [ids, idsL, id_mem_ids b]
+    have hca : c ≠ a.id := fun e => hc1 (e ▸ hain)
+    have hcb : c ≠ b.id := fun e => hc1 (e ▸ hbin)
+    have hcka : c ∉ h1.ch a.id := fun hm => hc1 (ch_sub_ids h1 none _ hr1 a.id hain c hm)
+    have hckb : c ∉ h1.ch b.id := fun hm => hc1 (ch_sub_ids h1 none _ hr1 b.id hbin c hm)
+    by_cases hal : a.isLeaf = true
+    · by_cases hbl : b.isLeaf = true
+      · -- both leaves: nothing to dissolve
+        simp only [hal, hbl, Bool.not_true, Bool.false_eq_true, if_false] at ht
+        injection ht with ht; subst ht
+        have ea : (h1.ch a.id).isEmpty = true := by rw [hcha]; simpa [T.isLeaf] using hal
+        have eb : (h1.ch b.id).isEmpty = true := by rw [hchb]; simpa [T.isLeaf] using hbl
+        exact ⟨h1, by rw [e0, hch1]; simp only [ea, eb, Bool.not_true, Bool.false_eq_true, if_false], hr1, hparc⟩
+      · -- `a` is a leaf, `b` is dissolved
+        have hbl' : b.isLeaf = false := by simpa using hbl
+        simp only [hal, hbl', Bool.not_true, Bool.not_false, Bool.false_eq_true, if_false, if_true] at ht
+        injection ht with ht; subst ht
+        have ea : (h1.ch a.id).isEmpty = true := by rw [hcha]; simpa [T.isLeaf] using hal
+        have eb : (h1.ch b.id).isEmpty = false := by rw [hchb]; simpa [T.isLeaf] using hbl'
+        have hacs : a.cs = [] := by simpa [T.isLeaf] using hal
+        -- the tree with `a`'s length already adjusted is represented by the same heap
+        have hr1' : Repr h1 none (T.node j x l s [a.withLen (tryAdd a.len b.len), b]) := by
+          simp only [Repr, ReprL, and_true] at hr1 ⊢
+          refine ⟨hr1.1, by rw [hr1.2.1]; simp, withLen_repr h1 (some j) _ a hr1.2.2.1, hr1.2.2.2⟩
+        have hw1' : WF (T.node j x l s [a.withLen (tryAdd a.len b.len), b]) := by
+          have : (ids (T.node j x l s [a, b])).Nodup := hw1
+          show (ids _).Nodup
+          simpa [ids, idsL, ids_withLen] using this
+        obtain ⟨hd, hpb, hjb⟩ := dissolve_root h1 _ j b.id hr1' hw1' rfl (by simp [T.cs])
+        have hab : a.id ≠ b.id := by
+          have : (ids (T.node j x l s [a, b])).Nodup := hw1
+          simp only [ids, idsL, List.append_nil, List.nodup_cons] at this
+          exact fun e => (List.nodup_append.mp this.2).2.2 a.id (id_mem_ids a) b.id (id_mem_ids b) e
+        have hsp : splice b.id (fun n => n.cs) (T.node j x l s [a.withLen (tryAdd a.len b.len), b]) =
+            (T.node j x l s [a, b]).withCs (a.withLen (tryAdd a.len b.len) :: b.cs) := by
+          have h1' : ((a.withLen (tryAdd a.len b.len)).id == b.id) = false := by simp [hab]
+          have h2' : splice b.id (fun n => n.cs) (a.withLen (tryAdd a.len b.len)) = a.withLen (tryAdd a.len b.len) := by
+            cases a with
+            | node ia xa la sa ca => simp only [T.cs] at hacs; subst hacs; simp [T.withLen, splice, spliceL]
+          simp [splice, spliceL, hab, h2', T.withCs]
+        rw [hsp] at hd
+        refine ⟨disHeap h1 j b.id, ?_, hd, ?_⟩
+        · rw [e0, hch1]; simp only [ea, eb, Bool.not_true, Bool.not_false, Bool.false_eq_true, if_false, if_true]
+          exact dissolve_eq h1 j b.id _ hch1 (by rw [hch1]; simp) hjb
+        · rw [disHeap_par_out h1 j b.id c hcb hckb]; exact hparc
+    · -- `a` is dissolved
+      have hal' : a.isLeaf = false := by simpa using hal
+      simp only [hal', Bool.not_false, if_true] at ht
+      injection ht with ht; subst ht
+      have ea : (h1.ch a.id).isEmpty = false := by rw [hcha]; simpa [T.isLeaf] using hal'
+      have hr1' : Repr h1 none (T.node j x l s [a, b.withLen (tryAdd b.len a.len)]) := by
+        simp only [Repr, ReprL, and_true] at hr1 ⊢
+        refine ⟨hr1.1, by rw [hr1.2.1]; simp, hr1.2.2.1, withLen_repr h1 (some j) _ b hr1.2.2.2⟩
+      have hw1' : WF (T.node j x l s [a, b.withLen (tryAdd b.len a.len)]) := by
+        have : (ids (T.node j x l s [a, b])).Nodup := hw1
+        show (ids _).Nodup
+        simpa [ids, idsL, ids_withLen] using this
+      obtain ⟨hd, hpa, hja⟩ := dissolve_root h1 _ j a.id hr1' hw1' rfl (by simp [T.cs])
+      have hsp : splice a.id (fun n => n.cs) (T.node j x l s [a, b.withLen (tryAdd b.len a.len)]) =
+          (T.node j x l s [a, b]).withCs (a.cs ++ [b.withLen (tryAdd b.len a.len)]) := by
+        simp [splice, spliceL, T.withCs]
+      rw [hsp] at hd
+      refine ⟨disHeap h1 j a.id, ?_, hd, ?_⟩
+      · rw [e0, hch1]; simp only [ea, Bool.not_false, if_true]
+        exact dissolve_eq h1 j a.id _ hch1 (by rw [hch1]; simp) hja
+      · rw [disHeap_par_out h1 j a.id c hca hcka]; exact hparc
+
+end DendroModel.C03.AuxH
+
+namespace DendroModel.C03
+open DendroModel DendroModel.C03.Aux DendroModel.C03.HeapAux DendroModel.C03.AuxR DendroModel.C03.AuxH
+
+/-! ## heap layer, continued: the remaining pointer primitives refine the tree operations `step` executes -/
+
+/-- `Node.remove_child` at pointer level, both products: the heap afterwards represents the tree without the subtree at
+`c` AND, separately, the removed subtree `sub` as a parentless arborescence of its own (what the harness judges as the
+"detached structure"). -/
+theorem removeChild_detached_repr (h : Heap) (t sub : T) (c : Nat) (hr : Repr h none t) (hw : WF t)
+    (hf : T.find? c t = some sub) (hne : c ≠ t.id) :
+    ∃ p h', h.par c = some p ∧ Heap.removeChild h p c = some h' ∧ Repr h' none (splice c (fun _ => []) t) ∧
+      Repr h' none sub := by
+  obtain ⟨p, hp, hsub, hps, _, hnds⟩ := find_sub h c none t sub hr hw hf hne
+  have hc : c ∈ ids t := (mem_iff_cnt c t).2 (find_pos c t sub hf)
+  exact ⟨p, rmHeap h p c, hp, removeChild_eq h p c (child_listed h c p none t hr hc hne hp),
+    spliceNil_repr h p c none t hr hw hc hne hp, detached_repr h p c sub hsub (find_id c t sub hf) hps hnds⟩
+
+/-- **The `parent_node` setter at pointer level** (`old._child_nodes.remove(self); self._parent_node = q; append if absent`),
+on a heap that represents `t`: for a non-root node `c` whose subtree `sub` does not contain the new parent `q`, the
+resulting heap represents the tree-level `setParent c q t` — `sub` hangs as the last child of `q`, interior untouched. -/
+theorem setParent_repr (h : Heap) (t sub : T) (c q : Nat) (hr : Repr h none t) (hw : WF t)
+    (hf : T.find? c t = some sub) (hne : c ≠ t.id) (hq : q ∈ ids t) (hqs : q ∉ ids sub) :
+    Repr (Heap.setParent h c (some q)) none (setParent c q t) :=
+  setParent_repr_aux h t sub c q hr hw hf hne hq hqs
+
+/-- end to end for the setter: whenever `step` (the function the driver runs) accepts `node.parent_node = q`, the pointer
+routine run on the tree's own heap represents the tree `step` returns -/
+theorem setParent_refines (s s' : St) (c q : Nat) (hw : WF s.t) (hs : step s (.setParent c q) = .ok s') :
+    Repr (Heap.setParent (Heap.ofTree none Heap.empty s.t) c (some q)) none s'.t := by
+  simp only [step] at hs
+  split at hs
+  · cases hs
+  · rename_i sub hf
+    split at hs
+    · cases hs
+    · rename_i hg
+      injection hs with hs; subst hs
+      simp only [Bool.or_eq_true, not_or] at hg
+      have g1 : c ≠ s.t.id := by intro e; exact hg.1.1 (by simp [e])
+      have g2 : containsId q sub = false := by simpa using hg.1.2
+      have g3 : containsId q s.t = true := by simpa using hg.2
+      have hqs : q ∉ ids sub := fun hm => by
+        have h0 := cnt_containsId q sub g2
+        have := (mem_iff_cnt q sub).1 hm; omega
+      have hq : q ∈ ids s.t := (mem_iff_cnt q s.t).2 (containsId_cnt q s.t g3)
+      exact setParent_repr _ s.t sub c q (ofTree_repr s.t hw) hw hf g1 hq hqs
+
+/-- **`Edge.collapse` at pointer level** (`parent.remove_child(head); for child in children: parent.insert_child(pos, child); pos += 1`)
+on a heap that represents `t`, for the edge above an internal non-root node `c`: it does not raise, the resulting heap
+represents the tree-level `splice c (collapseKids adjust)` — the children of `c` stand where `c` stood, in order, their
+parent pointers re-aimed — and `c` is left parentless. -/
+theorem edgeCollapse_repr (h : Heap) (t n : T) (c : Nat) (adj : Bool) (hr : Repr h none t) (hw : WF t)
+    (hf : T.find? c t = some n) (hne : c ≠ t.id) (hk : n.cs.isEmpty = false) :
+    ∃ h', Heap.edgeCollapse h c = some h' ∧ Repr h' none (splice c (collapseKids adj) t) ∧ h'.par c = none :=
+  edgeCollapse_repr_aux h t n c adj hr hw hf hne hk
+
+/-- end to end for `Edge.collapse`: whenever `step` completes, so does the pointer routine on the tree's own heap, and
+its result represents the tree `step` returns (the seed's edge: nothing happens on either side) -/
+theorem edgeCollapse_refines (s s' : St) (c : Nat) (adj : Bool) (hw : WF s.t) (hs : step s (.edgeCollapse c adj) = .ok s') :
+    ∃ h', Heap.edgeCollapse (Heap.ofTree none Heap.empty s.t) c = some h' ∧ Repr h' none s'.t := by
+  have hrep := ofTree_repr s.t hw
+  simp only [step] at hs
+  split at hs
+  · cases hs
+  · rename_i hcon
+    have hcon' : containsId c s.t = true := by simpa using hcon
+    split at hs
+    · rename_i t' ht
+      injection hs with hs; subst hs
+      simp only [edgeCollapse] at ht
+      split at ht
+      · rename_i e
+        injection ht with ht; subst ht
+        have e' : c = s.t.id := by simpa using e
+        have hpar := repr_root_par _ none s.t hrep
+        exact ⟨_, by simp only [Heap.edgeCollapse, e', hpar], hrep⟩
+      · rename_i e
+        have hne : c ≠ s.t.id := by simpa using e
+        split at ht
+        · rename_i hf
+          have := containsId_cnt c s.t hcon'
+          have := find_none_cnt c s.t hf; omega
+        · rename_i n hf
+          split at ht
+          · cases ht
+          · rename_i hk
+            injection ht with ht; subst ht
+            obtain ⟨h', h1, h2, _⟩ := edgeCollapse_repr _ s.t n c adj hrep hw hf hne (by simpa using hk)
+            exact ⟨h', h1, h2⟩
+    · cases hs
+
+/-- … and the documented error: where `step` answers `ValueError` (a terminal edge), the pointer routine raises too -/
+theorem edgeCollapse_error_refines (s : St) (c : Nat) (adj : Bool) (hw : WF s.t)
+    (hs : step s (.edgeCollapse c adj) = .error .valueError) :
+    Heap.edgeCollapse (Heap.ofTree none Heap.empty s.t) c = none := by
+  have hrep := ofTree_repr s.t hw
+  simp only [step] at hs
+  split at hs
+  · cases hs
+  · split at hs
+    · cases hs
+    · rename_i e ht
+      simp only [edgeCollapse] at ht
+      split at ht
+      · cases ht
+      · rename_i e1
+        have hne : c ≠ s.t.id := by simpa using e1
+        split at ht
+        · cases ht
+        · rename_i n hf
+          split at ht
+          · rename_i hk
+            obtain ⟨p, hp, hsub, _, _, _⟩ := find_sub _ c none s.t n hrep hw hf hne
+            have hid := find_id c s.t n hf
+            have hch := repr_root_ch _ (some p) n hsub
+            rw [hid] at hch
+            have hk' : n.cs = [] := by simpa using hk
+            simp only [Heap.edgeCollapse, hp, hch, hk', List.map_nil, List.isEmpty_nil, if_true]
+          · cases ht
+
+/-- **`Edge.invert` at pointer level, on an edge whose tail is the parentless seed** (every inversion of `reseed_at`'s chain
+is of this kind): the head `c` becomes the parentless root and the old seed, minus `c`, its last child. -/
+theorem edgeInvert_repr (h : Heap) (i : Nat) (x : Option Nat) (l : Option Frac) (s : Option String) (pre post : List T)
+    (c : T) (hr : Repr h none (.node i x l s (pre ++ c :: post))) (hw : WF (.node i x l s (pre ++ c :: post)))
+    (l1 l2 : Option Frac) :
+    ∃ h', Heap.edgeInvert h c.id = some h' ∧
+      Repr h' none (.node c.id c.taxon l1 c.label (c.cs ++ [.node i x l2 s (pre ++ post)])) :=
+  ⟨_, (rot h i x l s pre post c hr hw l1 l2).1, (rot h i x l s pre post c hr hw l1 l2).2⟩
+
+/-- … and why `Edge.invert` is safe only there: on an edge whose tail HAS a parent `g`, the routine as written leaves `g`
+listing the old head among its children while the head's parent pointer is cleared — the result represents no tree
+(`Edge.invert` is not among the operations of the property; `reseed_at` only ever inverts at the seed, `reseedChain_refines`). -/
+theorem edgeInvert_inner_breaks (h : Heap) (head tail g : Nat) (hpt : h.par head = some tail) (hpg : h.par tail = some g)
+    (hg : tail ∈ h.ch g) (hl : head ∈ h.ch tail) (hgt : g ≠ tail) (hgh : g ≠ head) (hht : head ≠ tail) :
+    ∃ h', Heap.edgeInvert h head = some h' ∧ h'.par head = none ∧ head ∈ h'.ch g ∧
+      ∀ (q : Option Nat) (t : T), Repr h' q t → g ∈ ids t → False := by
+  obtain ⟨h', h1, h2, h3, _⟩ := edgeInvert_inner h head tail g hpt hpg hg hl hgt hgh hht
+  refine ⟨h', h1, h2, h3, ?_⟩
+  intro q t hr hgin
+  -- a node listed among the children of a represented node has that node as its parent
+  have : ∀ (n : Nat) (q : Option Nat) (t : T), t.size ≤ n → Repr h' q t → g ∈ ids t → False := by
+    intro n
+    induction n with
+    | zero => intro q t hs; cases t; simp [T.size] at hs
+    | succ n ih =>
+      intro q t hs hr hgin
+      cases t with
+      | node j a b d e =>
+      simp only [T.size] at hs
+      simp only [Repr] at hr
+      simp only [ids, List.mem_cons] at hgin
+      rcases hgin with rfl | hgin
+      · have hm : head ∈ e.map T.id := hr.2.1 ▸ h3
+        obtain ⟨y, hy, hyid⟩ := List.mem_map.mp hm
+        have := reprL_mem_par h' g e y hr.2.2 hy
+        rw [hyid, h2] at this; cases this
+      · obtain ⟨pre, y, post, rfl, hy, _⟩ := mem_idsL_split g e hgin
+        have hry : Repr h' (some j) y := by
+          have := (reprL_split h' (some j) pre (y :: post) hr.2.2).2
+          simp only [ReprL] at this; exact this.1
+        have hys : y.size ≤ n := by have := size_le_sizeL (pre ++ y :: post) y (by simp); omega
+        exact ih (some j) y hys hry hy
+  exact this t.size q t (Nat.le_refl _) hr hgin
+
+/-- **The `suppress_unifurcations=True` branch of `Node.remove_child` at pointer level**, end to end: whenever the
+tree-level `removeChild p c true` (what `step` runs) completes on a tree without shared nodes, the pointer routine as
+written — plain removal; then, if `self` has a parent and is left with one child, `insert_child(pos, child)` /
+`remove_child(self)` / `self._child_nodes = []`; if `self` is parentless and left with two children, the first internal
+one is removed and its children re-inserted at its position in reversed order — run on the tree's own heap does not
+raise, and its result represents exactly the tree the model returns; the removed node is parentless. -/
+theorem removeChildSuppress_refines (t t' : T) (p c : Nat) (hw : WF t) (ht : removeChild p c true t = .ok t') :
+    ∃ h', Heap.removeChildSuppress (Heap.ofTree none Heap.empty t) p c = some h' ∧ Repr h' none t' ∧ h'.par c = none := by
+  have hpo : parentOf c t = some p := by
+    unfold removeChild at ht
+    split at ht
+    · cases ht
+    · rename_i e; simpa using e
+  by_cases hpr : p = t.id
+  · exact removeChildSuppress_root _ t t' p c (ofTree_repr t hw) hw hpo hpr ht
+  · exact removeChildSuppress_nonroot _ t t' p c (ofTree_repr t hw) hw hpo hpr ht
+
+/-- the same through `step`: the heap result represents the state `step` returns -/
+theorem removeChildSuppress_step_refines (s s' : St) (p c : Nat) (hw : WF s.t)
+    (hs : step s (.removeChild p c true) = .ok s') :
+    ∃ h', Heap.removeChildSuppress (Heap.ofTree none Heap.empty s.t) p c = some h' ∧ Repr h' none s'.t ∧ h'.par c = none := by
+  simp only [step] at hs
+  split at hs
+  · cases hs
+  · split at hs
+    · rename_i t' ht
+      injection hs with hs; subst hs
+      exact removeChildSuppress_refines s.t t' p c hw ht
+    · cases hs
+
+/-- non-vacuity of the new heap theorems on ((A,B),(C,D)) (`exTree`: 0 root, 1 = (A,B) with leaves 2, 3; 4 = (C,D) with leaves 5, 6):
+the hypotheses hold and every pointer routine really restructures -/
+example : WF exTree ∧ (T.find? 4 exTree).map (fun n => (n.id, n.cs.map T.id)) = some (4, [5, 6]) ∧
+    ((step { t := exTree, rooted := none } (.setParent 4 1)).toOption.map (fun s' => s'.t.size)) = some 7 ∧
+    (Heap.setParent (Heap.ofTree none Heap.empty exTree) 4 (some 1)).ch 1 = [2, 3, 4] ∧
+    (Heap.setParent (Heap.ofTree none Heap.empty exTree) 4 (some 1)).ch 0 = [1] ∧
+    (Heap.setParent (Heap.ofTree none Heap.empty exTree) 4 (some 1)).par 4 = some 1 := by
+  refine ⟨by unfold WF; decide, by decide, by decide, by decide, by decide, by decide⟩
+example : ((step { t := exTree, rooted := none } (.edgeCollapse 4 false)).toOption.map (fun s' => s'.t.size)) = some 6 ∧
+    (Heap.edgeCollapse (Heap.ofTree none Heap.empty exTree) 4).map (fun h => (h.ch 0, h.par 5, h.par 6, h.par 4)) =
+      some ([1, 5, 6], some 0, some 0, none) ∧
+    (match step { t := exTree, rooted := none } (.edgeCollapse 5 false) with | .error .valueError => true | _ => false) = true ∧
+    (Heap.edgeCollapse (Heap.ofTree none Heap.empty exTree) 5).isNone = true := by
+  refine ⟨by decide, by decide, by decide, by decide⟩
+/-- `remove_child(C, suppress_unifurcations=True)` on (C,D): D takes the place of the emptied node 4 (non-root case); and on
+the seed of (A,B,(C,D)) removing A leaves (B,(C,D)), whose internal child is dissolved: (B,C,D) (root case) -/
+example : ((removeChild 4 5 true exTree).toOption.map T.size) = some 5 ∧
+    (Heap.removeChildSuppress (Heap.ofTree none Heap.empty exTree) 4 5).map (fun h => (h.ch 0, h.par 6, h.par 4, h.ch 4, h.par 5)) =
+      some ([1, 6], some 0, none, [], none) := by
+  refine ⟨by decide, by decide⟩
+example : let t : T := .node 0 none none none [.node 1 (some 0) none none [], .node 2 (some 1) none none [],
+      .node 4 none none none [.node 5 (some 2) none none [], .node 6 (some 3) none none []]]
+    ((removeChild 0 1 true t).toOption.map (fun t' => t'.cs.map T.id)) = some [2, 5, 6] ∧
+    (Heap.removeChildSuppress (Heap.ofTree none Heap.empty t) 0 1).map (fun h => (h.ch 0, h.par 5, h.par 6)) =
+      some ([2, 5, 6], some 0, some 0) ∧
+    (Heap.removeChildSuppress (Heap.ofTree none Heap.empty t) 0 1).map (fun h => (h.par 4, h.ch 4, h.par 1)) =
+      some (none, [], none) := by
+  intro t; refine ⟨by decide, by decide, by decide⟩
+/-- `Edge.invert` below the seed of `exTree` on the edge above C (5): its tail 4 has the parent 0, which afterwards lists 5 -/
+example : (Heap.edgeInvert (Heap.ofTree none Heap.empty exTree) 5).map (fun h => (h.par 5, h.ch 0, h.par 4)) =
+    some (none, [1, 5], some 5) := by decide
+
+end DendroModel.C03
+
+
+namespace DendroModel.C03
+open DendroModel DendroModel.C03.Aux DendroModel.C03.HeapAux DendroModel.C03.AuxR DendroModel.C03.AuxH
+
+/-- **`Tree.collapse_basal_bifurcation` at pointer level** is one `Edge.collapse` (`to_del_edge.collapse()`), on the
+second child of the seed if that has at least two children, else on the first: whenever the tree-level `collapseBasal`
+(what `step` runs for `collapse_basal_bifurcation`, `deroot`, and inside `encode_bipartitions` / `reseed_at`) restructures a
+tree without shared nodes, `Edge.collapse` on that child's edge, run on the tree's own heap, does not raise and its result
+represents exactly the tree `collapseBasal` returns; the dissolved node ends parentless. -/
+theorem collapseBasal_repr (h : Heap) (t t' : T) (hrep : Repr h none t) (hw : WF t) (hc : collapseBasal t = some t') :
+    ∃ d h', d ∈ t.cs.map T.id ∧ Heap.edgeCollapse h d = some h' ∧ Repr h' none t' ∧ h'.par d = none := by
+  cases t with
+  | node j x l s cs =>
+  match cs, hc, hw, hrep with
+  | [], hc, _, _ => simp [collapseBasal, T.cs] at hc
+  | [_], hc, _, _ => simp [collapseBasal, T.cs] at hc
+  | _ :: _ :: _ :: _, hc, _, _ => simp [collapseBasal, T.cs] at hc
+  | [a, b], hc, hw, hrep =>
+    have hdef : collapseBasal (T.node j x l s [a, b]) =
+        (if b.cs.length ≥ 2 then some ((T.node j x l s [a, b]).withCs (a.withLen (addLen a.len b.len) :: b.cs))
+         else if a.cs.length ≥ 2 then some ((T.node j x l s [a, b]).withCs (a.cs ++ [b.withLen (addLen b.len a.len)]))
+         else none) := rfl
+    rw [hdef] at hc
+    have hnd : (ids (T.node j x l s [a, b])).Nodup := hw
+    simp only [ids, idsL, List.append_nil, List.nodup_cons, List.mem_append, not_or] at hnd
+    have hdis : ∀ y ∈ ids a, ∀ z ∈ ids b, y ≠ z := (List.nodup_append.mp hnd.2).2.2
+    have hja : j ≠ a.id := fun e => hnd.1.1 (e ▸ id_mem_ids a)
+    have hjb : j ≠ b.id := fun e => hnd.1.2 (e ▸ id_mem_ids b)
+    have hab : a.id ≠ b.id := hdis a.id (id_mem_ids a) b.id (id_mem_ids b)
+    simp only [T.withCs] at hc
+    split at hc
+    · -- the second child is dissolved
+      rename_i hb2
+      injection hc with hc; subst hc
+      have hr' : Repr h none (T.node j x l s [a.withLen (addLen a.len b.len), b]) := by
+        simp only [Repr, ReprL, and_true] at hrep ⊢
+        exact ⟨hrep.1, by rw [hrep.2.1]; simp, withLen_repr h (some j) _ a hrep.2.2.1, hrep.2.2.2⟩
+      have hw' : WF (T.node j x l s [a.withLen (addLen a.len b.len), b]) := by
+        show (ids _).Nodup
+        have : (ids (T.node j x l s [a, b])).Nodup := hw
+        simpa [ids, idsL, ids_withLen] using this
+      have hbna : b.id ∉ ids (a.withLen (addLen a.len b.len)) := by
+        rw [ids_withLen]; exact fun hm => hdis b.id hm b.id (id_mem_ids b) rfl
+      have hfa : T.find? b.id (a.withLen (addLen a.len b.len)) = none := by
+        cases hf : T.find? b.id (a.withLen (addLen a.len b.len)) with
+        | none => rfl
+        | some r => exact absurd ((mem_iff_cnt _ _).2 (find_pos _ _ r hf)) hbna
+      have hf : T.find? b.id (T.node j x l s [a.withLen (addLen a.len b.len), b]) = some b := by
+        have hbj : b.id ≠ j := fun e => hjb e.symm
+        have e1 : (b.id == j) = false := by simp [hbj]
+        simp only [T.find?, e1, T.findL?, hfa, find_self b.id b rfl, Bool.false_eq_true, if_false]
+      have hk : b.cs.isEmpty = false := by
+        cases hcs : b.cs with
+        | nil => rw [hcs] at hb2; simp at hb2
+        | cons _ _ => rfl
+      obtain ⟨h', e1, e2, e3⟩ := edgeCollapse_repr h _ b b.id false hr' hw' hf (by simp only [T.id]; exact fun e => hjb e.symm) hk
+      refine ⟨b.id, h', by simp [T.cs], e1, ?_, e3⟩
+      have hsp : splice b.id (collapseKids false) (T.node j x l s [a.withLen (addLen a.len b.len), b]) =
+          T.node j x l s (a.withLen (addLen a.len b.len) :: b.cs) := by
+        have hck : collapseKids false b = b.cs := by simp [collapseKids]
+        simp [splice, spliceL, hab, spliceF_notin _ _ _ hbna, hck]
+      rw [hsp] at e2; exact e2
+    · split at hc
+      · -- the first child is dissolved
+        rename_i ha2
+        injection hc with hc; subst hc
+        have hr' : Repr h none (T.node j x l s [a, b.withLen (addLen b.len a.len)]) := by
+          simp only [Repr, ReprL, and_true] at hrep ⊢
+          exact ⟨hrep.1, by rw [hrep.2.1]; simp, hrep.2.2.1, withLen_repr h (some j) _ b hrep.2.2.2⟩
+        have hw' : WF (T.node j x l s [a, b.withLen (addLen b.len a.len)]) := by
+          show (ids _).Nodup
+          have : (ids (T.node j x l s [a, b])).Nodup := hw
+          simpa [ids, idsL, ids_withLen] using this
+        have hf : T.find? a.id (T.node j x l s [a, b.withLen (addLen b.len a.len)]) = some a := by
+          have haj : a.id ≠ j := fun e => hja e.symm
+          have e1 : (a.id == j) = false := by simp [haj]
+          simp only [T.find?, e1, T.findL?, find_self a.id a rfl, Bool.false_eq_true, if_false]
+        have hk : a.cs.isEmpty = false := by
+          cases hcs : a.cs with
+          | nil => rw [hcs] at ha2; simp at ha2
+          | cons _ _ => rfl
+        obtain ⟨h', e1, e2, e3⟩ := edgeCollapse_repr h _ a a.id false hr' hw' hf (by simp only [T.id]; exact fun e => hja e.symm) hk
+        refine ⟨a.id, h', by simp [T.cs], e1, ?_, e3⟩
+        have hsp : splice a.id (collapseKids false) (T.node j x l s [a, b.withLen (addLen b.len a.len)]) =
+            T.node j x l s (a.cs ++ [b.withLen (addLen b.len a.len)]) := by
+          have hck : collapseKids false a = a.cs := by simp [collapseKids]
+          simp [splice, spliceL, hck]
+        rw [hsp] at e2; exact e2
+      · cases hc
+
+/-- … in particular on the tree's own heap, and after the inversion chain of `reseed_at` (compose with `reseedChain_refines`:
+the heap that chain leaves represents `reseedCore target false t`, so this theorem applies to it) -/
+theorem collapseBasal_refines (t t' : T) (hw : WF t) (hc : collapseBasal t = some t') :
+    ∃ d h', d ∈ t.cs.map T.id ∧ Heap.edgeCollapse (Heap.ofTree none Heap.empty t) d = some h' ∧ Repr h' none t' ∧
+      h'.par d = none :=
+  collapseBasal_repr _ t t' (ofTree_repr t hw) hw hc
+
+/-- non-vacuity: ((A,B),(C,D)) — the second child (4) is dissolved, its children C, D move up behind (A,B) -/
+example : (collapseBasal exTree).map (fun t' => t'.cs.map T.id) = some [1, 5, 6] ∧
+    (Heap.edgeCollapse (Heap.ofTree none Heap.empty exTree) 4).map (fun h => (h.ch 0, h.par 4)) = some ([1, 5, 6], none) := by
+  refine ⟨by decide, by decide⟩
+
+end DendroModel.C03
+
+
+/-! # heap refinement, third part: error of remove_child, what `Repr` means, insert_child of an existing child, reseed_at with the basal collapse -/
+
+namespace DendroModel.C03.AuxH
+open DendroModel DendroModel.C03 DendroModel.C03.Aux DendroModel.C03.HeapAux DendroModel.C03.AuxR
+
+mutual
+/-- in a represented heap, a node listed among the children of a node of the tree is where the tree-level `parentOf` finds it -/
+theorem listed_parentOf (h : Heap) (c p : Nat) : ∀ (q : Option Nat) (t : T), Repr h q t → (ids t).Nodup → p ∈ ids t →
+    c ∈ h.ch p → parentOf c t = some p
+  | q, .node i a b d cs, hr, hnd, hp, hc => by
+      simp only [ids, List.nodup_cons] at hnd
+      simp only [Repr] at hr
+      simp only [ids, List.mem_cons] at hp
+      simp only [parentOf]
+      rcases hp with rfl | hp
+      · have : cs.any (fun x => x.id == c) = true := by
+          rw [hr.2.1] at hc
+          obtain ⟨x, hx, hxc⟩ := List.mem_map.mp hc
+          exact List.any_eq_true.mpr ⟨x, hx, by simp [hxc]⟩
+        simp [this]
+      · have hcL : c ∈ idsL cs := chL_sub_ids h (some i) cs hr.2.2 p hp c hc
+        have hpi : p ≠ i := fun e => hnd.1 (e ▸ hp)
+        have hany : cs.any (fun x => x.id == c) = false := by
+          cases hh : cs.any (fun x => x.id == c) with
+          | false => rfl
+          | true =>
+            obtain ⟨x, hx, hxc⟩ := List.any_eq_true.mp hh
+            have hxc' : x.id = c := by simpa using hxc
+            have h1 := reprL_mem_par h i cs x hr.2.2 hx
+            rw [hxc'] at h1
+            have h2 := (listedL_par h c p i cs hr.2.2 hnd.2 hp hc)
+            rw [h1] at h2; exact absurd (Option.some.inj h2).symm hpi
+        simp only [hany, Bool.false_eq_true, if_false]
+        exact listedL_parentOf h c p i cs hr.2.2 hnd.2 hp hc
+theorem listedL_parentOf (h : Heap) (c p : Nat) : ∀ (i : Nat) (cs : List T), ReprL h (some i) cs → (idsL cs).Nodup →
+    p ∈ idsL cs → c ∈ h.ch p → parentOfL c cs = some p
+  | _, [], _, _, hp, _ => by simp [idsL] at hp
+  | i, x :: xs, hr, hnd, hp, hc => by
+      simp only [ReprL] at hr
+      simp only [idsL] at hnd
+      have hndx := (List.nodup_append.mp hnd).1
+      have hndxs := (List.nodup_append.mp hnd).2.1
+      have hdis : ∀ y ∈ ids x, ∀ z ∈ idsL xs, y ≠ z := (List.nodup_append.mp hnd).2.2
+      simp only [idsL, List.mem_append] at hp
+      simp only [parentOfL]
+      rcases hp with hp | hp
+      · rw [listed_parentOf h c p (some i) x hr.1 hndx hp hc]
+      · have hcxs : c ∈ idsL xs := chL_sub_ids h (some i) xs hr.2 p hp c hc
+        have hnone : parentOf c x = none := by
+          cases hpo : parentOf c x with
+          | none => rfl
+          | some p' =>
+            have := parentOf_repr h c p' (some i) x hr.1 hndx hpo
+            exact absurd rfl (hdis c this.2.1 c hcxs)
+        rw [hnone]
+        exact listedL_parentOf h c p i xs hr.2 hndxs hp hc
+/-- … and its parent pointer points back -/
+theorem listedL_par (h : Heap) (c p : Nat) : ∀ (i : Nat) (cs : List T), ReprL h (some i) cs → (idsL cs).Nodup →
+    p ∈ idsL cs → c ∈ h.ch p → h.par c = some p
+  | _, [], _, _, hp, _ => by simp [idsL] at hp
+  | i, x :: xs, hr, hnd, hp, hc => by
+      simp only [ReprL] at hr
+      simp only [idsL] at hnd
+      simp only [idsL, List.mem_append] at hp
+      rcases hp with hp | hp
+      · cases x with
+        | node j a b d e =>
+          have hrx := hr.1
+          simp only [Repr] at hrx
+          have hndx := (List.nodup_append.mp hnd).1
+          simp only [ids, List.nodup_cons] at hndx
+          simp only [ids, List.mem_cons] at hp
+          rcases hp with rfl | hp
+          · rw [hrx.2.1] at hc
+            obtain ⟨y, hy, hyc⟩ := List.mem_map.mp hc
+            exact hyc ▸ reprL_mem_par h p e y hrx.2.2 hy
+          · exact listedL_par h c p j e hrx.2.2 hndx.2 hp hc
+      · exact listedL_par h c p i xs hr.2 (List.nodup_append.mp hnd).2.1 hp hc
+end
+
+end DendroModel.C03.AuxH
+
+namespace DendroModel.C03
+open DendroModel DendroModel.C03.Aux DendroModel.C03.HeapAux DendroModel.C03.AuxR DendroModel.C03.AuxH
+
+/-- **The documented error of `Node.remove_child`, at pointer level.**  Whenever `step` answers `remove_child` with
+`ValueError` (the node is not listed as a child of `self`; `self` is a node of the tree), the pointer routine as written,
+with or without `suppress_unifurcations`, raises as well — before touching any pointer (`none` = no successor heap), which
+is the "raises a documented error and leaves the tree well formed" half of the statement for this primitive. -/
+theorem removeChild_error_refines (s : St) (p c : Nat) (sup : Bool) (hw : WF s.t)
+    (hs : step s (.removeChild p c sup) = .error .valueError) :
+    Heap.removeChild (Heap.ofTree none Heap.empty s.t) p c = none ∧
+    Heap.removeChildSuppress (Heap.ofTree none Heap.empty s.t) p c = none := by
+  have hrep := ofTree_repr s.t hw
+  simp only [step] at hs
+  split at hs
+  · cases hs
+  · rename_i hcon
+    have hp : p ∈ ids s.t := (mem_iff_cnt p s.t).2 (containsId_cnt p s.t (by simpa using hcon))
+    split at hs
+    · cases hs
+    · rename_i e he
+      have hpo : parentOf c s.t ≠ some p := by
+        intro hpo
+        have hpo' : (parentOf c s.t != some p) = false := by simp [hpo]
+        simp only [removeChild, hpo', Bool.false_eq_true, if_false] at he
+        repeat (first | (split at he) | cases he)
+      have hnl : c ∉ (Heap.ofTree none Heap.empty s.t).ch p :=
+        fun hm => hpo (listed_parentOf _ c p none s.t hrep hw hp hm)
+      have h1 : Heap.removeChild (Heap.ofTree none Heap.empty s.t) p c = none := by
+        simp [Heap.removeChild, hnl]
+      exact ⟨h1, by simp [Heap.removeChildSuppress, h1]⟩
+
+/-- non-vacuity: B (3) is not a child of (C,D) (4) -/
+example : (match step { t := exTree, rooted := none } (.removeChild 4 3 true) with | .error .valueError => true | _ => false) = true ∧
+    (Heap.removeChild (Heap.ofTree none Heap.empty exTree) 4 3).isNone = true := by
+  refine ⟨by decide, by decide⟩
+
+end DendroModel.C03
+
+namespace DendroModel.C03
+open DendroModel DendroModel.C03.Aux DendroModel.C03.HeapAux DendroModel.C03.AuxR DendroModel.C03.AuxH
+
+/-- **What `Repr` means, in the words of the statement.**  If a heap represents a tree without shared nodes then, read on
+the pointers alone: the seed has no parent; every other node of the tree has a parent that is a node of the tree, is
+listed exactly once among that parent's children and among no other node's children; every listed child's parent pointer
+points back; and the child lists lead to nodes of the tree only (so a traversal from the seed visits exactly `ids t`).
+This is clause (a) of the property; every `_repr` / `_refines` theorem above therefore says that the pointer routine leaves
+an arborescence in exactly this sense. -/
+theorem repr_is_arborescence (h : Heap) (t : T) (hr : Repr h none t) (hw : WF t) :
+    h.par t.id = none ∧
+    (∀ c ∈ ids t, c ≠ t.id → ∃ p ∈ ids t, h.par c = some p ∧ (h.ch p).count c = 1 ∧
+        ∀ p' ∈ ids t, c ∈ h.ch p' → p' = p) ∧
+    (∀ p ∈ ids t, ∀ k ∈ h.ch p, k ∈ ids t ∧ h.par k = some p) := by
+  have hlisted : ∀ p ∈ ids t, ∀ k ∈ h.ch p, h.par k = some p := by
+    intro p hp k hk
+    exact (parentOf_repr h k p none t hr hw (listed_parentOf h k p none t hr hw hp hk)).1
+  have hnodup : ∀ p ∈ ids t, (h.ch p).Nodup := by
+    intro p hp
+    obtain ⟨n, hf⟩ := find_exists p t hp
+    have hid := find_id p t n hf
+    by_cases hroot : p = t.id
+    · have hn : n = t := by
+        cases t with
+        | node j a b d e =>
+          simp only [T.id] at hroot; subst hroot
+          simp [T.find?] at hf; exact hf.symm
+      subst hn
+      rw [← hid, repr_root_ch h none n hr]
+      cases n with
+      | node j a b d e =>
+        have : (ids (T.node j a b d e)).Nodup := hw
+        simp only [ids, List.nodup_cons] at this
+        exact (map_id_sublist e).nodup this.2
+    · obtain ⟨g, _, hrn, _, _, hndn⟩ := find_sub h p none t n hr hw hf hroot
+      rw [← hid, repr_root_ch h (some g) n hrn]
+      cases n with
+      | node j a b d e =>
+        simp only [ids, List.nodup_cons] at hndn
+        exact (map_id_sublist e).nodup hndn.2
+  refine ⟨repr_root_par h none t hr, ?_, fun p hp k hk => ⟨ch_sub_ids h none t hr p hp k hk, hlisted p hp k hk⟩⟩
+  intro c hc hne
+  obtain ⟨sub, hf⟩ := find_exists c t hc
+  obtain ⟨p, hp, _, _, hpt, _⟩ := find_sub h c none t sub hr hw hf hne
+  have hl : c ∈ h.ch p := child_listed h c p none t hr hc hne hp
+  refine ⟨p, hpt, hp, ?_, ?_⟩
+  · have h1 := List.nodup_iff_count.mp (hnodup p hpt) c
+    have h2 : 0 < (h.ch p).count c := List.count_pos_iff.mpr hl
+    omega
+  · intro p' hp' hl'
+    have := hlisted p' hp' c hl'
+    rw [hp] at this; exact (Option.some.inj this).symm
+
+/-- non-vacuity on ((A,B),(C,D)): the literal reading for node C (5) -/
+example : (Heap.ofTree none Heap.empty exTree).par 0 = none ∧ (Heap.ofTree none Heap.empty exTree).par 5 = some 4 ∧
+    ((Heap.ofTree none Heap.empty exTree).ch 4).count 5 = 1 ∧ ((Heap.ofTree none Heap.empty exTree).ch 0).count 5 = 0 := by decide
+
+end DendroModel.C03
+
+namespace DendroModel.C03.AuxH
+open DendroModel DendroModel.C03 DendroModel.C03.Aux DendroModel.C03.HeapAux DendroModel.C03.AuxR
+
+theorem reprL_mem (h : Heap) (q : Option Nat) : ∀ (l : List T) (y : T), ReprL h q l → y ∈ l → Repr h q y
+  | [], _, _, hy => by simp at hy
+  | x :: xs, y, hr, hy => by
+      simp only [ReprL] at hr
+      simp only [List.mem_cons] at hy
+      rcases hy with rfl | hy
+      · exact hr.1
+      · exact reprL_mem h q xs y hr.2 hy
+
+theorem reprL_of_mem (h : Heap) (q : Option Nat) : ∀ l : List T, (∀ y ∈ l, Repr h q y) → ReprL h q l
+  | [], _ => by simp [ReprL]
+  | x :: xs, hy => by
+      simp only [ReprL]
+      exact ⟨hy x (by simp), reprL_of_mem h q xs (fun y hm => hy y (by simp [hm]))⟩
+
+/- re-arranging the children of `p` (a heap that differs from `h` in `ch p` only) -/
+mutual
+theorem rearrange_repr (h h' : Heap) (p : Nat) (g : T → List T)
+    (hpar : ∀ x, h'.par x = h.par x) (hch : ∀ x, x ≠ p → h'.ch x = h.ch x)
+    (hsub : ∀ n : T, ∀ y ∈ g n, y ∈ n.cs)
+    (hloc : ∀ n : T, n.id = p → h.ch p = n.cs.map T.id → (n.cs.map T.id).Nodup → h'.ch p = (g n).map T.id) :
+    ∀ (q : Option Nat) (t : T), Repr h q t → (ids t).Nodup → Repr h' q (modify p (fun n => n.withCs (g n)) t)
+  | q, .node j x l s cs, hr, hnd => by
+      simp only [ids, List.nodup_cons] at hnd
+      simp only [Repr] at hr
+      simp only [modify]
+      split
+      · rename_i e
+        have hjp : j = p := by simpa using e
+        subst hjp
+        simp only [T.withCs, Repr]
+        have hndm : (cs.map T.id).Nodup := (map_id_sublist cs).nodup hnd.2
+        refine ⟨by rw [hpar]; exact hr.1, hloc (.node j x l s cs) rfl hr.2.1 hndm, ?_⟩
+        apply reprL_of_mem
+        intro y hy
+        have hycs : y ∈ cs := hsub (.node j x l s cs) y hy
+        apply agree h h' (some j) y _ (reprL_mem h (some j) cs y hr.2.2 hycs)
+        intro z hz
+        have hzj : z ≠ j := fun e1 => hnd.1 (e1 ▸ ids_sub_idsL cs y hycs z hz)
+        exact ⟨hpar z, hch z hzj⟩
+      · rename_i e
+        have hjp : j ≠ p := by simpa using e
+        simp only [Repr]
+        refine ⟨by rw [hpar]; exact hr.1, ?_, rearrangeL_repr h h' p g hpar hch hsub hloc (some j) cs hr.2.2 hnd.2⟩
+        rw [hch j hjp, hr.2.1, modifyL_map_id]; intro y; cases y; rfl
+theorem rearrangeL_repr (h h' : Heap) (p : Nat) (g : T → List T)
+    (hpar : ∀ x, h'.par x = h.par x) (hch : ∀ x, x ≠ p → h'.ch x = h.ch x)
+    (hsub : ∀ n : T, ∀ y ∈ g n, y ∈ n.cs)
+    (hloc : ∀ n : T, n.id = p → h.ch p = n.cs.map T.id → (n.cs.map T.id).Nodup → h'.ch p = (g n).map T.id) :
+    ∀ (q : Option Nat) (cs : List T), ReprL h q cs → (idsL cs).Nodup → ReprL h' q (modifyL p (fun n => n.withCs (g n)) cs)
+  | _, [], _, _ => by simp [modifyL, ReprL]
+  | q, c :: cs, hr, hnd => by
+      simp only [idsL] at hnd
+      simp only [ReprL] at hr
+      simp only [modifyL, ReprL]
+      exact ⟨rearrange_repr h h' p g hpar hch hsub hloc q c hr.1 (List.nodup_append.mp hnd).1,
+             rearrangeL_repr h h' p g hpar hch hsub hloc q cs hr.2 (List.nodup_append.mp hnd).2.1⟩
+end
+
+/-- the new child list `insert_child(index, node)` gives a node when `node` already is one of its children -/
+def moveKids (idx c : Nat) (n : T) : List T :=
+  match n.cs.findIdx? (fun x => x.id == c), n.cs.find? (fun x => x.id == c) with
+  | some cur, some sub => if cur == idx then n.cs else insertAt idx sub (n.cs.filter (fun x => x.id != c))
+  | _, _ => n.cs
+
+theorem insertMove_eq (p idx c : Nat) (t : T) : insertMove p idx c t = modify p (fun n => n.withCs (moveKids idx c n)) t := by
+  unfold insertMove
+  congr 1
+  funext n
+  have hself : n.withCs n.cs = n := by cases n; rfl
+  unfold moveKids
+  cases n.cs.findIdx? (fun x => x.id == c) with
+  | none => simp [hself]
+  | some cur =>
+    cases n.cs.find? (fun x => x.id == c) with
+    | none => simp [hself]
+    | some sub =>
+      by_cases e : (cur == idx) = true
+      · simp [e, hself]
+      · simp [e]
+
+theorem idxOf_map_id (c : Nat) : ∀ cs : List T, (cs.map T.id).idxOf? c = cs.findIdx? (fun x => x.id == c)
+  | [] => by simp
+  | x :: xs => by
+      simp only [List.map_cons, List.idxOf?_cons, List.findIdx?_cons, idxOf_map_id c xs]
+
+theorem erase_map_id (c : Nat) : ∀ cs : List T, (cs.map T.id).Nodup →
+    (cs.map T.id).erase c = (cs.filter (fun x => x.id != c)).map T.id
+  | [], _ => by simp
+  | x :: xs, hnd => by
+      simp only [List.map_cons, List.nodup_cons] at hnd
+      by_cases hx : x.id = c
+      · have hc : c ∉ xs.map T.id := hx ▸ hnd.1
+        have hall : xs.filter (fun y => y.id != c) = xs := by
+          apply List.filter_eq_self.mpr
+          intro y hy
+          have : y.id ≠ c := fun e => hc (List.mem_map.mpr ⟨y, hy, e⟩)
+          simp [this]
+        simp [hx, hall]
+      · have hb : (x.id != c) = true := by simp [hx]
+        simp only [List.map_cons, List.filter_cons, hb, if_true]
+        rw [List.erase_cons_tail (by simpa using hx), erase_map_id c xs hnd.2]
+
+end DendroModel.C03.AuxH
+
+namespace DendroModel.C03
+open DendroModel DendroModel.C03.Aux DendroModel.C03.HeapAux DendroModel.C03.AuxR DendroModel.C03.AuxH
+
+/-- **`Node.insert_child(index, node)` at pointer level where `node` already is a child of `self`** (the "moved to the
+specified position" case: `cur_index = children.index(node)`; nothing if it is there already, else `remove` + `insert`):
+whenever `step` accepts the operation, the pointer routine run on the tree's own heap represents the tree `step` returns. -/
+theorem insertMove_refines (s s' : St) (p idx c : Nat) (hw : WF s.t) (hs : step s (.insertMove p idx c) = .ok s') :
+    Repr (Heap.insertChild (Heap.ofTree none Heap.empty s.t) p idx c) none s'.t := by
+  have hrep := ofTree_repr s.t hw
+  generalize Heap.ofTree none Heap.empty s.t = h at hrep
+  simp only [step] at hs
+  split at hs
+  · cases hs
+  · rename_i hpo0
+    injection hs with hs; subst hs
+    have hpo : parentOf c s.t = some p := by simpa using hpo0
+    obtain ⟨hp, hc, hne⟩ := parentOf_repr h c p none s.t hrep hw hpo
+    have hl : c ∈ h.ch p := child_listed h c p none s.t hrep hc hne hp
+    have hfar := insertChild_far h p idx c
+    show Repr _ none (insertMove p idx c s.t)
+    rw [insertMove_eq]
+    apply rearrange_repr h _ p (moveKids idx c) _ hfar.1 _ _ none s.t hrep hw
+    · intro x
+      by_cases hx : x = c
+      · subst hx
+        rw [hp]
+        unfold Heap.insertChild
+        cases (h.ch p).idxOf? x with
+        | none => simp [Heap.setPar, Heap.setCh]
+        | some cur => by_cases e : (cur == idx) = true <;> simp [e, Heap.setPar, Heap.setCh]
+      · exact hfar.2 x hx
+    · intro n y hy
+      unfold moveKids at hy
+      split at hy
+      · rename_i cur sub hfi hfd
+        split at hy
+        · exact hy
+        · simp only [insertAt, List.mem_append, List.mem_cons] at hy
+          rcases hy with hy | rfl | hy
+          · exact (List.mem_filter.mp (List.mem_of_mem_take hy)).1
+          · exact List.mem_of_find?_eq_some hfd
+          · exact (List.mem_filter.mp (List.mem_of_mem_drop hy)).1
+      · exact hy
+    · intro n hn hch hnd
+      have hcm : c ∈ n.cs.map T.id := hch ▸ hl
+      obtain ⟨x0, hx0, hx0c⟩ := List.mem_map.mp hcm
+      have hidx : (h.ch p).idxOf? c = n.cs.findIdx? (fun x => x.id == c) := by rw [hch, idxOf_map_id]
+      unfold moveKids
+      cases hfi : n.cs.findIdx? (fun x => x.id == c) with
+      | none =>
+        have := (List.findIdx?_eq_none_iff.mp hfi) x0 hx0
+        simp [hx0c] at this
+      | some cur =>
+        cases hfd : n.cs.find? (fun x => x.id == c) with
+        | none =>
+          have := (List.find?_eq_none.mp hfd) x0 hx0
+          simp [hx0c] at this
+        | some sub =>
+          have hsc : sub.id = c := by have := List.find?_some hfd; simpa using this
+          rw [hfi] at hidx
+          by_cases e : (cur == idx) = true
+          · simp only [Heap.insertChild, hidx, e, if_true, Heap.setPar]
+            exact hch
+          · have e' : (cur == idx) = false := by simpa using e
+            simp only [Heap.insertChild, hidx, e', Bool.false_eq_true, if_false, Heap.setPar, Heap.setCh, if_true]
+            rw [hch, erase_map_id c n.cs hnd]
+            simp [Heap.insertAtN, insertAt, hsc, List.map_take, List.map_drop]
+
+/-- non-vacuity: moving D (6) to the front of (C,D) -/
+example : ((step { t := exTree, rooted := none } (.insertMove 4 0 6)).toOption.map
+      (fun s' => (T.find? 4 s'.t).map (fun n => n.cs.map T.id))) = some (some [6, 5]) ∧
+    (Heap.insertChild (Heap.ofTree none Heap.empty exTree) 4 0 6).ch 4 = [6, 5] := by
+  refine ⟨by decide, by decide⟩
+
+end DendroModel.C03
+
+namespace DendroModel.C03
+open DendroModel DendroModel.C03.Aux DendroModel.C03.HeapAux DendroModel.C03.AuxR DendroModel.C03.AuxH
+
+/-- **`reseed_at(new_seed, collapse_unrooted_basal_bifurcation=<any>, suppress_unifurcations=False)` at pointer level**:
+the inversion chain as written, followed — exactly when the model's guard (`gen_reseedCollapseGuard`: flag set, tree not
+rooted, two children at the new seed) fires and `collapse_basal_bifurcation` finds a child to dissolve — by that one
+`Edge.collapse`, represents the tree `step` returns for `reseedAt target collapse false`.
+Still PARTIAL with respect to `suppress_unifurcations=True` (the pointer-level post-order suppression loop and the
+leaf-target clean-up are not in the heap model). -/
+theorem reseedAt_collapse_refines (s : St) (target : Nat) (collapse : Bool) (hw : WF s.t) (ht : target ∈ ids s.t) :
+    ∃ h1, Heap.reseedChain (Heap.ofTree none Heap.empty s.t) (s.t.size + 2) target = some h1 ∧
+      (Repr h1 none (reseedAt target collapse false s).t ∨
+       ∃ d h2, Heap.edgeCollapse h1 d = some h2 ∧ Repr h2 none (reseedAt target collapse false s).t ∧ h2.par d = none) := by
+  obtain ⟨h1, hc, hr⟩ := reseedChain_refines s.t target hw ht
+  have hw1 : WF (reseedCore target false s.t) := wf_of_le hw (reseedCore_le target false s.t)
+  refine ⟨h1, hc, ?_⟩
+  have key : (reseedAt target collapse false s).t =
+      (if (collapse && s.rooted != some true && (reseedCore target false s.t).cs.length == 2) = true then
+        (match collapseBasal (reseedCore target false s.t) with
+          | some t' => t'
+          | none => reseedCore target false s.t)
+       else reseedCore target false s.t) := by
+    simp only [reseedAt, encodeStruct, Bool.false_eq_true, if_false, collapseBasalSt]
+    split
+    · cases hcb : collapseBasal (reseedCore target false s.t) <;> rfl
+    · rfl
+  rw [key]
+  split
+  · cases hcb : collapseBasal (reseedCore target false s.t) with
+    | none => left; exact hr
+    | some t' =>
+      right
+      obtain ⟨d, h2, _, e1, e2, e3⟩ := collapseBasal_repr h1 _ t' hr hw1 hcb
+      exact ⟨d, h2, e1, e2, e3⟩
+  · left; exact hr
+
+/-- non-vacuity: re-seeding the unrooted (((C,D)x)y,E) at the unary node y (1): one inversion gives y[x, old seed[E]], a basal
+bifurcation whose first child x = (C,D) is then dissolved by one `Edge.collapse` -/
+example : let t : T := .node 0 none none none [.node 1 none none none [.node 2 none none none
+        [.node 3 (some 0) none none [], .node 4 (some 1) none none []]], .node 5 (some 2) none none []]
+    (reseedAt 1 true false { t := t, rooted := some false }).t.cs.map T.id = [3, 4, 0] ∧
+    ((Heap.reseedChain (Heap.ofTree none Heap.empty t) (t.size + 2) 1).bind (fun h => Heap.edgeCollapse h 2)).map
+      (fun h => (h.ch 1, h.par 3, h.par 2, h.ch 0)) = some ([3, 4, 0], some 1, none, [5]) := by
+  intro t; refine ⟨by decide, by decide⟩
+
+end DendroModel.C03
+
+
+/-! # tie (A): the regenerated decision kernels are what the model does -/
+/-! Tie (A) for C03 — every decision kernel regenerated from the current source (`Gen/C03Guards.lean`, written by
+`harness/gen/c03guards.py` on every run) is what the hand-written model (`Model/C03.lean`) does at that point.
+A semantics-preserving rewrite of the source regenerates a definition for which these proofs still go through
+(they only use case analysis, `simp`, `decide`, `omega`); a changed constant, comparison operator, conjunct or
+and/or nesting in the source changes the generated definition and breaks the corresponding theorem. -/
+namespace DendroModel.C03
+open DendroModel
+
+/-! ### K0 — what the atoms `internal` / `leaf` stand for -/
+
+/-- `Node.is_internal()` / `Node.is_leaf()` as regenerated are the model's "has children" / `T.isLeaf`, and are
+each other's negation (the generator reads `not x.is_leaf()` as `not (not internal)` on that ground). -/
+theorem gen_nodePredicates (c : T) :
+    C03Guards.nodeIsInternal c.cs.length = !c.isLeaf ∧ C03Guards.nodeIsLeaf c.cs.length = c.isLeaf
+      ∧ ∀ n, C03Guards.nodeIsLeaf n = !C03Guards.nodeIsInternal n := by
+  refine ⟨?_, ?_, ?_⟩
+  · unfold C03Guards.nodeIsInternal T.isLeaf; cases c.cs <;> simp
+  · unfold C03Guards.nodeIsLeaf T.isLeaf; cases c.cs <;> simp
+  · intro n; unfold C03Guards.nodeIsLeaf C03Guards.nodeIsInternal; cases n <;> simp
+
+example : C03Guards.nodeIsInternal 0 = false ∧ C03Guards.nodeIsLeaf 0 = true ∧ C03Guards.nodeIsInternal 3 = true := by decide
+
+/-- `Edge.is_internal()` / `Edge.is_leaf()` of an edge that has a head node (every edge the iterators yield) are
+"the head node is not a leaf" / "is a leaf". -/
+theorem gen_edgePredicates (headLeaf : Bool) :
+    C03Guards.edgeIsInternal true headLeaf = !headLeaf ∧ C03Guards.edgeIsLeaf true headLeaf = headLeaf := by
+  cases headLeaf <;> decide
+
+example : C03Guards.edgeIsInternal true false = true ∧ C03Guards.edgeIsLeaf true false = false := by decide
+
+/-! ### K1 — `Tree.collapse_unweighted_edges` -/
+
+/-- the model's per-edge test `unweighted` is the regenerated test of the source, on the atoms
+`e.length is None`, `e.length <= threshold` (only meaningful for a length that is not None) and `e.is_internal()`. -/
+theorem gen_collapsePred (thr : Frac) (c : T) :
+    unweighted thr c
+      = C03Guards.collapsePred c.len.isNone (match c.len with | some l => l.le thr | none => false) (!c.cs.isEmpty) := by
+  unfold unweighted C03Guards.collapsePred
+  cases c.len <;> cases c.cs.isEmpty <;> simp <;> cases (Frac.le _ thr) <;> rfl
+
+example : unweighted Frac.zero (.node 1 none none none [.node 2 none none none []]) = true
+    ∧ C03Guards.collapsePred true false true = true ∧ C03Guards.collapsePred true false false = false
+    ∧ C03Guards.collapsePred false true true = true ∧ C03Guards.collapsePred false false true = false := by decide
+
+/-- the literal default `threshold` in the source is the value the harness's corner cases issue as the default
+(`thr = 1/10000000`). -/
+theorem gen_defaultThreshold :
+    (C03Guards.defaultThresholdNum, C03Guards.defaultThresholdDen) = ((1 : Int), (10000000 : Nat)) := by decide
+
+/-- … and it lies strictly between 0 and 1/1024: with the default, exactly the missing, zero and negative lengths
+among the dyadic lengths (denominators up to 8) the harness uses count as "unweighted". -/
+theorem gen_defaultThreshold_small :
+    0 < C03Guards.defaultThresholdNum ∧ C03Guards.defaultThresholdNum * 1024 < (C03Guards.defaultThresholdDen : Int) := by
+  decide
+
+example : unweighted (Frac.mk' C03Guards.defaultThresholdNum C03Guards.defaultThresholdDen)
+    (.node 1 none (some (Frac.mk' 1 8)) none [.node 2 none none none []]) = false := by decide
+
+/-! ### K2 — the guard of `collapse_basal_bifurcation()` in `encode_bipartitions` and at the end of `reseed_at` -/
+
+/-- `encodeStruct` (the model of the restructuring done by `encode_bipartitions`) is: collapse the basal bifurcation
+under the regenerated guard of `encode_bipartitions`, with the regenerated default `set_as_unrooted_tree`, then
+suppress unifurcations if asked. -/
+theorem gen_encodeCollapseGuard (suppress collapse : Bool) (s : St) :
+    encodeStruct suppress collapse s
+      = (let s1 := if C03Guards.encodeCollapseGuard collapse (s.rooted == some true) s.t.cs.length
+                   then collapseBasalSt C03Guards.basalSetUnrootedDefault s else s
+         if suppress then { s1 with t := sup s1.t } else s1) := by
+  unfold encodeStruct C03Guards.encodeCollapseGuard C03Guards.basalSetUnrootedDefault
+  by_cases hn : s.t.cs.length = 2
+  · have hn' : 2 = s.t.cs.length := hn.symm
+    cases collapse <;> cases hr : (s.rooted == some true) <;> simp_all [bne]
+  · have hn' : ¬ 2 = s.t.cs.length := fun e => hn e.symm
+    cases collapse <;> cases hr : (s.rooted == some true) <;> simp_all [bne]
+
+/-- the `else` branch of `if update_bipartitions:` at the end of `reseed_at` uses the same guard: the model is right
+to use one `encodeStruct` for both settings of `update_bipartitions`. -/
+theorem gen_reseedCollapseGuard (collapse rooted : Bool) (n : Nat) :
+    C03Guards.reseedCollapseGuard collapse rooted n = C03Guards.encodeCollapseGuard collapse rooted n := by
+  unfold C03Guards.reseedCollapseGuard C03Guards.encodeCollapseGuard
+  by_cases hn : n = 2
+  · subst hn; cases collapse <;> cases rooted <;> rfl
+  · have hn' : ¬ 2 = n := fun e => hn e.symm
+    cases collapse <;> cases rooted <;> simp_all
+
+example : C03Guards.encodeCollapseGuard true false 2 = true ∧ C03Guards.encodeCollapseGuard true true 2 = false
+    ∧ C03Guards.encodeCollapseGuard true false 3 = false ∧ C03Guards.reseedCollapseGuard false false 2 = false := by decide
+
+/-! ### K3 — `Tree.collapse_basal_bifurcation` -/
+
+/-- the model's `collapseBasal` makes the regenerated choice: nothing unless the seed has exactly two children;
+the second child is dissolved when it has ≥ 2 children, else the first when that has ≥ 2, else nothing. -/
+theorem gen_basalChoice (t : T) :
+    collapseBasal t = match t.cs with
+      | [a, b] => (match C03Guards.basalChoice 2 a.cs.length b.cs.length with
+        | 1 => some (t.withCs (a.withLen (addLen a.len b.len) :: b.cs))
+        | 2 => some (t.withCs (a.cs ++ [b.withLen (addLen b.len a.len)]))
+        | _ => none)
+      | _ => none := by
+  unfold collapseBasal C03Guards.basalChoice
+  rcases t.cs with _ | ⟨a, _ | ⟨b, _ | ⟨c, r⟩⟩⟩
+  · rfl
+  · rfl
+  · by_cases h1 : b.cs.length ≥ 2 <;> by_cases h0 : a.cs.length ≥ 2 <;> simp [h1, h0]
+  · rfl
+
+/-- … and returns unchanged whenever the seed does not have exactly two children (the model's `| _ => none`). -/
+theorem gen_basalChoice_not2 (n n0 n1 : Nat) (h : n ≠ 2) : C03Guards.basalChoice n n0 n1 = 0 := by
+  unfold C03Guards.basalChoice
+  split
+  · rfl
+  · next hc => simp at hc; omega
+
+example : C03Guards.basalChoice 2 0 2 = 1 ∧ C03Guards.basalChoice 2 2 0 = 2 ∧ C03Guards.basalChoice 2 2 2 = 1
+    ∧ C03Guards.basalChoice 2 1 1 = 0 ∧ C03Guards.basalChoice 3 2 2 = 0 := by decide
+
+/-! ### K4 — `Node.remove_child(node, suppress_unifurcations=True)` -/
+
+/-- `self` has a parent: the model replaces it by its only child exactly when the regenerated count of remaining
+children is met. -/
+theorem gen_removeUnaryCount (p c : Nat) (t : T) (hp : parentOf c t = some p) (hr : p ≠ t.id) :
+    removeChild p c true t
+      = (let t1 := splice c (fun _ => []) t
+         match (t1.find? p).map T.cs with
+         | some cs =>
+           if cs.length = C03Guards.removeUnaryCount then
+             .ok (splice p (fun n => cs.map (fun child => child.withLen (tryAdd child.len n.len))) t1)
+           else .ok t1
+         | none => .ok t1) := by
+  unfold removeChild C03Guards.removeUnaryCount
+  have hr' : (p != t.id) = true := by simp [bne, hr]
+  simp only [hp, hr']
+  cases h : (T.find? p (splice c (fun _ => []) t)).map T.cs with
+  | none => simp
+  | some cs =>
+    match cs with
+    | [] => simp
+    | [x] => simp
+    | x :: y :: r => simp
+
+/-- `self` is parentless: with exactly the regenerated number of children left, the regenerated choice (first internal
+child first, else the second) says which child the model dissolves in place. -/
+theorem gen_removeRootChoice (c : Nat) (t : T) (hp : parentOf c t = some t.id) :
+    removeChild t.id c true t
+      = (let t1 := splice c (fun _ => []) t
+         if t1.cs.length = C03Guards.removeRootCount then
+           match t1.cs with
+           | [a, b] => (match C03Guards.removeRootChoice (!a.isLeaf) (!b.isLeaf) with
+             | 1 => .ok (t1.withCs (a.cs ++ [b.withLen (tryAdd b.len a.len)]))
+             | 2 => .ok (t1.withCs (a.withLen (tryAdd a.len b.len) :: b.cs))
+             | _ => .ok t1)
+           | _ => .ok t1
+         else .ok t1) := by
+  unfold removeChild C03Guards.removeRootCount C03Guards.removeRootChoice
+  simp only [hp]
+  generalize splice c (fun _ => []) t = t1
+  match h : t1.cs with
+  | [] => simp
+  | [x] => simp
+  | [a, b] => cases ha : a.isLeaf <;> cases hb : b.isLeaf <;> simp [ha, hb]
+  | x :: y :: z :: r => simp
+
+example : C03Guards.removeUnaryCount = 1 ∧ C03Guards.removeRootCount = 2 ∧ C03Guards.removeRootChoice true true = 1
+    ∧ C03Guards.removeRootChoice false true = 2 ∧ C03Guards.removeRootChoice false false = 0 := by decide
+
+/-! ### K5 — unifurcations -/
+
+/-- `sup` removes a node exactly when, after its children were processed, it has the regenerated number of children
+(`len(children) == 1` in `suppress_unifurcations`). -/
+theorem gen_supCount (i : Nat) (x : Option Nat) (l : Option Frac) (s : Option String) (cs : List T) :
+    sup (.node i x l s cs)
+      = if (supL cs).length = C03Guards.supCount then
+          (match supL cs with
+           | c :: _ => c.withLen (addLen c.len l)
+           | [] => .node i x l s [])
+        else .node i x l s (supL cs) := by
+  unfold C03Guards.supCount
+  rw [sup]
+  match supL cs with
+  | [] => simp
+  | [c] => simp
+  | a :: b :: r => simp
+
+/-- the per-node test of `encode_bipartitions` is: asked to suppress, and the count of `suppress_unifurcations` —
+which is why `encodeStruct` may apply the very same `sup` when `suppress` is set and nothing otherwise. -/
+theorem gen_encodeSupGuard (n : Nat) (suppress : Bool) :
+    C03Guards.encodeSupGuard n suppress = (suppress && decide (n = C03Guards.supCount)) := by
+  unfold C03Guards.encodeSupGuard C03Guards.supCount
+  by_cases hn : n = 1
+  · subst hn; cases suppress <;> rfl
+  · have hn' : ¬ 1 = n := fun e => hn e.symm
+    cases suppress <;> simp_all
+
+example : C03Guards.encodeSupGuard 1 true = true ∧ C03Guards.encodeSupGuard 1 false = false
+    ∧ C03Guards.encodeSupGuard 2 true = false ∧ C03Guards.supCount = 1 := by decide
+
+/-! ### K6 — `Tree.resolve_polytomies` -/
+
+/-- one round of the model's `joinLoop` is guarded by the regenerated test (`len(node._child_nodes) > limit`, the
+same text at the selection of the polytomies and at the `while`: the generator refuses if they differ). -/
+theorem gen_resolveGuard (limit f : Nat) (cs : List T) (k : Nat) :
+    joinLoop limit (f + 1) cs k
+      = if C03Guards.resolveGuard cs.length limit then
+          (match cs with
+           | c1 :: c2 :: rest => joinLoop limit f (rest ++ [.node k none (some Frac.zero) none [c1, c2]]) (k + 1)
+           | _ => (cs, k))
+        else (cs, k) := by
+  unfold C03Guards.resolveGuard
+  match cs with
+  | [] => simp [joinLoop]
+  | [x] => simp [joinLoop]
+  | c1 :: c2 :: rest => simp [joinLoop]
+
+/-- the default `limit` of the source is one the model does not refuse (`step` answers `bad-input` below 2). -/
+theorem gen_defaultLimit (s : St) (ub : Bool) :
+    ∃ s', step s (.resolve C03Guards.defaultLimit ub) = .ok s' := by
+  unfold C03Guards.defaultLimit
+  simp [step]
+
+example : C03Guards.resolveGuard 3 2 = true ∧ C03Guards.resolveGuard 2 2 = false ∧ C03Guards.defaultLimit = 2 := by decide
 
 end DendroModel.C03
